@@ -67,6 +67,7 @@ TRUSTED (the translation is as good as these):
 import ast
 import os
 import re
+import threading
 
 REPO_DEFAULT = os.environ.get("NPTDMS_REPO", "/repo")
 
@@ -202,6 +203,15 @@ def lean_type(t, top=True):
             return t[1] + " " + " ".join(sp) if top else "(" + t[1] + " " + " ".join(sp) + ")"
         return t[1]
     if k == "abstract":
+        return t[1]
+    if k == "dyn":
+        return "Py.Val R" if top else "(Py.Val R)"
+    if k == "num":
+        return "R"
+    if k == "union":
+        sp = STRUCT_PARAMS.get(t[1])
+        if sp:
+            return t[1] + " " + " ".join(sp) if top else "(" + t[1] + " " + " ".join(sp) + ")"
         return t[1]
     s = None
     if k == "opt":
@@ -603,9 +613,12 @@ class Env:
         self.vars = dict(vars or {})       # python local name -> type
         self.narrow = dict(narrow or {})   # source text of a None-able expression -> (lean name, type) once tested
         self.fresh = set(fresh or ())      # locals bound to an object nobody else refers to (copy / constructor)
+        self.lazy = {}                     # (part 2) locals bound to a generator expression (evaluated where iterated)
 
     def copy(self):
-        return Env(self.vars, self.narrow, self.fresh)
+        e = Env(self.vars, self.narrow, self.fresh)
+        e.lazy = self.lazy
+        return e
 
     def assign(self, name, ty):
         e = self.copy()
@@ -2645,9 +2658,17 @@ def translate_function(self, target):
     return self.done[target.qualname]
 
 
+_GEN_LOCK = threading.RLock()     # `generate2` swaps the module level table STRUCT_PARAMS: one generation at a time
+
+
 def generate(repo_root=None, overrides=None, targets=None, strict=False):
     """the full text of lean/Tdms/Generated/Code.lean for the source tree at `repo_root`
     (`overrides`: {relative path: source text}, used by the self test)"""
+    with _GEN_LOCK:
+        return _generate(repo_root, overrides, targets, strict)
+
+
+def _generate(repo_root=None, overrides=None, targets=None, strict=False):
     src = Source(repo_root or REPO_DEFAULT, overrides)
     import copy as _copy
     tgts = [_copy.copy(t) for t in (targets or TARGETS)]
@@ -2725,6 +2746,1918 @@ def _used_structs(tr):
         for _, v in t.abstract.items():
             visit(v[1])
     return used
+
+
+# ================================================================================================
+# PART 2 — `Code2.lean`: scaling (C13/C14), sensors (C17), writer (C07/C08), thermocouples (C18), handles (C20)
+# ================================================================================================
+#
+# EXTENSIONS OF THE SUBSET (class `Translator2`; the 23 targets of part 1 are translated by `Translator`, unchanged)
+#
+#   values      a dynamically typed property value (Python / numpy int, float or str) -> `Py.Val R` ("dyn"); a float, or
+#               ONE ELEMENT of a numpy float array (numpy arithmetic is elementwise) -> `R` ("num"), an arbitrary type with
+#               exactly the operations the function uses (`[Add R] [Mul R] …` binders are generated); an object that may
+#               be of one of several classes -> a generated `inductive` (UNIONS2 table), one constructor per class; a set
+#               -> a list (only membership, `-`, `update`, `sorted` are supported on it); bytes -> the list of byte values
+#   expressions float literals (the decimal number `repr` prints, as a quotient of naturals), `+ - * /` and unary minus on
+#               floats / arrays / dyn values (dyn operands are converted by `Py.Val.toNum`: TypeError for a str),
+#               `a & b` on bools, `a | b` on ints, `== !=` with a dyn operand (`Py.Val.eq`), `< <= > >=` on floats (a
+#               None-able float compared raises TypeError), `k in d`, `d.keys()`, `s.endswith(t)`,
+#               `"…%d…%s…" % args` with a literal format, `xs[v]` / `range(v)` with a dyn `v` (`Py.Val.toIndex`), `int(v)`
+#               (`Py.Val.toIntConv`), `d[v]` on an int-keyed dict (`Py.Dict.getV`), `C(args)` for a class whose `__init__`
+#               is translated (keyword arguments and constant defaults are resolved), `ObjectPath(…)` (CONSTRUCTORS2),
+#               `C.static_method(args)`, `C.CONSTANT`, `module.object` (its name), a TdmsType class (its `enum_value`,
+#               when the target says `types_as_enum`), `isinstance(x, C)` / `hasattr(x, 'a')` / `x.a` / `x.m(args)` /
+#               `x.prop` for `x` of a union type (`match`; a missing attribute or method raises AttributeError, a method of
+#               another arity TypeError; `isinstance` with a builtin / numpy class through the table ISINSTANCE2), reads
+#               of a translated `@property`, `np.array(xs)` / `x.astype(…)` / `x.copy()` (identity), `np.reciprocal(x)`,
+#               `np.zeros(len(x), …)`, `next(e for y in (f(x) for x in xs) if c)` on LAZY generators (`Py.firstE`),
+#               `set(xs)`, `a - b` on sets, `dict(pairs)`, `xs + list(gen)`
+#   statements  `g = (… for …)` (lazy: substituted where `g` is iterated), `try: … except E:` whose handler ends in
+#               `continue` / `return` / `raise` (`Py.tryOpt`), `try: return … except E: return …` (`Py.tryCatch`),
+#               `np.reciprocal(x, out=x)`, `xs.extend(it)`, `xs.sort(key=lambda …)` (`Py.sortByKeyE`, stable),
+#               `self.a.update(x)` (set / dict), `__init__` (every `self.f = e` is a local `self_f`, the result is the
+#               object; `init_partial`: attributes outside the signature table are dropped), self-recursive methods with
+#               a `fuel` parameter (Python's recursion limit: "RecursionError"), `h.close()` in a `close_log` target
+#               (the closed handle is appended to the list the definition returns), a test after a narrowing test that
+#               can raise (`hasattr(o, 'data') and o.data_type != Void`) is evaluated inside that branch
+#
+# TRUSTED in part 2: `STRUCTS2` (field TYPES; the field names are checked against `__init__` where it is translated),
+# `UNIONS2`, `ISINSTANCE2` (class hierarchy), `CONSTRUCTORS2`, `TARGETS2` (parameter types, `abstract` calls that become
+# parameters, `locals` type annotations, `rewrite` / `region`, `types_as_enum`, `init_partial`, `close_log`), and the
+# appended part of `CodePrelude.lean`.
+
+DYN = ("dyn",)
+NUM = ("num",)
+LEAN_KEYWORDS |= {"prefix", "postfix", "infixl", "infixr", "open", "fuel", "id", "variable", "opaque", "noncomputable",
+                  "termination_by", "decreasing_by", "omit", "include", "fun", "forall", "exists", "nofun", "suffices",
+                  "obtain", "at", "from", "using", "show", "then", "else", "do", "where", "deriving"}
+
+
+def Union(n):
+    return ("union", n)
+
+
+CLASS_ORDER = ["DecidableEq", "NatCast", "Neg", "Add", "Sub", "Mul", "Div", "Inv", "LT", "LE", "DecLT", "DecLE"]
+CLASS_BINDER = {"DecLT": "[DecidableRel (α := R) (· < ·)]", "DecLE": "[DecidableRel (α := R) (· ≤ ·)]"}
+
+
+def _kind(t):
+    t = resolve(t)
+    return t[0] if isinstance(t, tuple) else None
+
+
+def _mentions(t, pred):
+    t = resolve(t)
+    if not isinstance(t, tuple):
+        return False
+    if pred(t):
+        return True
+    k = t[0]
+    if k in ("opt", "list"):
+        return _mentions(t[1], pred)
+    if k == "tuple":
+        return any(_mentions(x, pred) for x in t[1])
+    if k == "dict":
+        return _mentions(t[1], pred) or _mentions(t[2], pred)
+    if k == "fn":
+        return any(_mentions(x, pred) for x in t[1]) or _mentions(t[2], pred)
+    return False
+
+
+def _abstract_names(t, out):
+    t = resolve(t)
+    if not isinstance(t, tuple):
+        return
+    k = t[0]
+    if k == "abstract":
+        if t[1] not in out:
+            out.append(t[1])
+    elif k in ("struct", "union"):
+        for p in STRUCT_PARAMS.get(t[1]) or ():
+            if p != "R" and p not in out:
+                out.append(p)
+    elif k in ("opt", "list"):
+        _abstract_names(t[1], out)
+    elif k == "tuple":
+        for x in t[1]:
+            _abstract_names(x, out)
+    elif k == "dict":
+        _abstract_names(t[1], out)
+        _abstract_names(t[2], out)
+    elif k == "fn":
+        for x in t[1]:
+            _abstract_names(x, out)
+        _abstract_names(t[2], out)
+
+
+class Desugar2(ast.NodeTransformer):
+    """`xs.extend(it)` -> `xs = xs + list(it)`;  `xs.sort(key=f)` -> `xs = __sorted_by__(xs, f)`;
+    `self.a.update(x)` -> `self.a = __update__(self.a, x)` (set union / dict update)"""
+
+    def visit_Expr(self, node):
+        v = node.value
+        if isinstance(v, ast.Call) and isinstance(v.func, ast.Attribute):
+            recv, attr = v.func.value, v.func.attr
+            new = None
+            if attr == "extend" and isinstance(recv, ast.Name) and len(v.args) == 1 and not v.keywords:
+                new = ast.Assign(targets=[ast.Name(id=recv.id, ctx=ast.Store())],
+                                 value=ast.BinOp(left=ast.Name(id=recv.id, ctx=ast.Load()), op=ast.Add(),
+                                                 right=ast.Call(func=ast.Name(id="list", ctx=ast.Load()), args=v.args, keywords=[])))
+            elif attr == "sort" and isinstance(recv, ast.Name) and not v.args and len(v.keywords) == 1 \
+                    and v.keywords[0].arg == "key":
+                new = ast.Assign(targets=[ast.Name(id=recv.id, ctx=ast.Store())],
+                                 value=ast.Call(func=ast.Name(id="__sorted_by__", ctx=ast.Load()),
+                                                args=[ast.Name(id=recv.id, ctx=ast.Load()), v.keywords[0].value], keywords=[]))
+            elif attr == "update" and isinstance(recv, ast.Attribute) and isinstance(recv.value, ast.Name) \
+                    and recv.value.id == "self" and len(v.args) == 1 and not v.keywords:
+                new = ast.Assign(targets=[ast.Attribute(value=ast.Name(id="self", ctx=ast.Load()), attr=recv.attr, ctx=ast.Store())],
+                                 value=ast.Call(func=ast.Name(id="__update__", ctx=ast.Load()),
+                                                args=[ast.Attribute(value=ast.Name(id="self", ctx=ast.Load()), attr=recv.attr,
+                                                                    ctx=ast.Load()), v.args[0]], keywords=[]))
+            if new is not None:
+                return ast.copy_location(new, node)
+        return node
+
+
+# constructors with `*args` that are not translated: class -> (structure, fields filled by the positional arguments, the
+# others are None).  TRUSTED: mirrors `ObjectPath.__init__(*path_components)` for up to two components.
+CONSTRUCTORS2 = {"ObjectPath": ("ObjectPath", ["group", "channel"])}
+
+
+class Target2(Target):
+    """as `Target`, plus
+    locals     : {local name: declared type} (a type annotation; the assigned value is coerced to it)
+    rec_fuel   : the method calls itself: the definition gets a `fuel : Nat` parameter (structural recursion)
+    is_property: read as an attribute (`@property`)
+    """
+
+    def __init__(self, *a, locals=None, rec_fuel=False, is_property=False, types_as_enum=False, **kw):
+        super().__init__(*a, **kw)
+        self.types_as_enum = types_as_enum     # TdmsType classes are identified with their `enum_value` (an int)
+        self.close_log = False                 # `h.close()` statements are recorded: the definition returns the list of closed handles
+        self.locals = locals or {}
+        self.rec_fuel = rec_fuel
+        self.is_property = is_property
+        self.abs_params = []       # [(lean name, type)] abstract parameters of the generated definition, own and inherited
+        self.needs_fuel = rec_fuel
+        self.classes = set()
+        self.is_init = self.name == "__init__"
+        self.static = False
+        self.defaults = []
+
+
+class Translator2(Translator):
+    def __init__(self, source, targets, structs, unions, struct_params):
+        super().__init__(source, targets, structs)
+        self.unions = unions
+        self.struct_params = struct_params
+        self.aux = {}          # lean name -> text of an auxiliary definition (attribute accessor / method dispatcher)
+        self.aux_before = {}   # qualname of a target -> [aux names emitted in front of it]
+        self.aux_info = {}     # lean name -> dict(abs_params, classes, effect)
+        self.classes = set()
+
+    # -- helpers -----------------------------------------------------------------------------------
+    def need(self, *cls):
+        self.classes.update(cls)
+
+    def has_R(self, t):
+        def pred(x):
+            return x[0] in ("dyn", "num") or (x[0] in ("struct", "union") and "R" in (self.struct_params.get(x[1]) or ()))
+        return _mentions(t, pred)
+
+    def snapshot(self, ctx):
+        return (self.counter, len(ctx.binds), set(self.classes))
+
+    def rollback(self, ctx, snap):
+        self.counter = snap[0]
+        del ctx.binds[snap[1]:]
+        self.classes = set(snap[2])
+
+    def class_node(self, name, rel=None):
+        for n in self.src.tree(rel or self.cur.file).body:
+            if isinstance(n, ast.ClassDef) and n.name == name:
+                return n
+        return None
+
+    def class_method(self, cls, name):
+        c = self.class_node(cls)
+        if c is None:
+            return None
+        for n in c.body:
+            if isinstance(n, ast.FunctionDef) and n.name == name:
+                return n
+        return None
+
+    def union_of(self, sname):
+        return [u for u, ms in self.unions.items() if sname in ms]
+
+    # -- coercions ---------------------------------------------------------------------------------
+    def coerce(self, e, ty, node=None, ctx=None):
+        ty_r, et = resolve(ty), resolve(e.ty)
+        kt, ke = _kind(ty_r), _kind(et)
+        if isinstance(et, TVar) or isinstance(ty_r, TVar):
+            return super().coerce(e, ty, node, ctx)
+        if kt == "dyn" and ke != "dyn":
+            if et == INT:
+                return "(Py.Val.int %s : Py.Val R)" % atom(typed(e))
+            if et == NUM:
+                return "(Py.Val.num %s : Py.Val R)" % atom(e.code)
+            if ke == "list" and resolve(et[1]) == CHAR:
+                return "(Py.Val.str %s : Py.Val R)" % atom(e.code)
+            self.fail("a %s where a dynamically typed value is expected" % lean_type(et), node)
+        if kt == "num" and ke == "dyn":
+            if ctx is None:
+                self.fail("a dynamically typed value used as a number in a position that cannot raise", node)
+            self.need("NatCast", "Neg")
+            return self.bind_eff(ctx, "Py.Val.toNum %s" % atom(e.code), NUM).code
+        if kt == "num" and et == INT:
+            self.need("NatCast", "Neg")
+            return "(Py.Val.ofInt %s : R)" % atom(typed(e))
+        if kt == "int" and ke == "dyn":
+            if ctx is None:
+                self.fail("a dynamically typed value used as an index in a position that cannot raise", node)
+            return self.bind_eff(ctx, "Py.Val.toIndex %s" % atom(e.code), INT).code
+        if kt == "union" and ke == "struct":
+            if et[1] not in self.unions[ty_r[1]]:
+                self.fail("class %s is not a member of the union %s" % (et[1], ty_r[1]), node)
+            return "(%s.%s %s)" % (ty_r[1], et[1], atom(e.code))
+        if kt == "opt" and ke != "opt":
+            inner = self.coerce(e, ty_r[1], node, ctx)
+            return "some " + atom(inner)
+        return super().coerce(e, ty, node, ctx)
+
+    def lift(self, code, have, want, node, name):
+        h, w = resolve(have), resolve(want)
+        if not isinstance(h, TVar) and not isinstance(w, TVar) and _kind(w) == "dyn" and _kind(h) != "dyn":
+            return atom(self.coerce(E(code, h), w, node))
+        return super().lift(code, have, want, node, name)
+
+    def join_type(self, ts, node, name):
+        rs = [resolve(t) for t in ts]
+        if any(_kind(t) == "dyn" for t in rs) and all(
+                _kind(t) == "dyn" or t == INT or t == NUM or (_kind(t) == "list" and resolve(t[1]) == CHAR) for t in rs):
+            return DYN
+        return super().join_type(ts, node, name)
+
+    def as_num(self, e, ctx, node):
+        t = resolve(e.ty)
+        if t == NUM:
+            return e
+        return E(self.coerce(e, NUM, node, ctx), NUM)
+
+    # -- expressions -------------------------------------------------------------------------------
+    def ex_Constant(self, node, env, ctx):
+        v = node.value
+        if isinstance(v, bytes):
+            return E("[" + ", ".join("(%d : Int)" % b for b in v) + "]", Lst(INT))      # a bytes object: its byte values
+        if type(v) is float:
+            from fractions import Fraction
+            fr = Fraction(repr(v))
+            if fr < 0:
+                self.fail("negative float literal", node)
+            self.need("NatCast")
+            if fr.denominator == 1:
+                return E("((%d : Nat) : R)" % fr.numerator, NUM)
+            self.need("Div")
+            return E("(((%d : Nat) : R) / ((%d : Nat) : R))" % (fr.numerator, fr.denominator), NUM)
+        return super().ex_Constant(node, env, ctx)
+
+    TYPES_FILE = "nptdms/types.py"
+
+    def type_enum(self, name, node):
+        """a TdmsType class (decorated `@tds_data_type(N, …)`) is identified with its `enum_value` N"""
+        c = self.class_node(name, self.TYPES_FILE)
+        if c is None:
+            return None
+        for d in c.decorator_list:
+            if isinstance(d, ast.Call) and ast.unparse(d.func) == "tds_data_type" and d.args \
+                    and isinstance(d.args[0], ast.Constant) and type(d.args[0].value) is int:
+                lean = "%s.enum_value" % name
+                if lean not in self.const_defs:
+                    self.const_defs[lean] = (str(d.args[0].value), INT,
+                                             "%s: `@tds_data_type(%s, …) class %s`" % (self.TYPES_FILE, ast.unparse(d.args[0]), name))
+                return E(lean, INT)
+        return None
+
+    def ex_Name(self, node, env, ctx):
+        n = node.id
+        if n not in env.narrow and n not in env.vars and getattr(self.cur, "types_as_enum", False) \
+                and n not in self.cur.abstract:
+            e = self.type_enum(n, node)
+            if e is not None:
+                return e
+        return super().ex_Name(node, env, ctx)
+
+    def ex_UnaryOp(self, node, env, ctx):
+        if isinstance(node.op, ast.USub):
+            snap = self.snapshot(ctx)
+            a = self.ex(node.operand, env, ctx)
+            if _kind(a.ty) in ("num", "dyn"):
+                a = self.as_num(a, ctx, node)
+                self.need("Neg")
+                return E("-" + atom(a.code), NUM)
+            self.rollback(ctx, snap)
+        return super().ex_UnaryOp(node, env, ctx)
+
+    def str_format(self, node, env, ctx):
+        fmt = node.left.value
+        args = list(node.right.elts) if isinstance(node.right, ast.Tuple) else [node.right]
+        parts = re.split(r"(%[ds%])", fmt)
+        pieces = []
+        for p in parts:
+            if p in ("%d", "%s"):
+                if not args:
+                    self.fail("not enough arguments for the format string", node)
+                a = self.ex(args.pop(0), env, ctx)
+                if p == "%d":
+                    if resolve(a.ty) != INT:
+                        self.fail("`%d` of a value that is not an int by the signature table", node)
+                    pieces.append("Py.fmtD %s" % atom(a.code))
+                else:
+                    if not unify(a.ty, Lst(CHAR)):
+                        self.fail("`%s` of a value that is not a str by the signature table", node)
+                    pieces.append(a.code)
+            elif p == "%%":
+                pieces.append("['%']")
+            elif p:
+                if "%" in p:
+                    self.fail("format specification in %r" % fmt, node)
+                pieces.append("[" + ", ".join(char_lit(c) for c in p) + "]")
+        if args:
+            self.fail("too many arguments for the format string", node)
+        if not pieces:
+            return E("[]", Lst(CHAR))
+        return E(" ++ ".join(atom(p) for p in pieces), Lst(CHAR))
+
+    def ex_BinOp(self, node, env, ctx):
+        op = node.op
+        if isinstance(op, ast.Mod) and isinstance(node.left, ast.Constant) and isinstance(node.left.value, str):
+            return self.str_format(node, env, ctx)
+        if isinstance(op, (ast.Add, ast.Sub, ast.Mult, ast.Div, ast.BitAnd, ast.BitOr)) and not (
+                isinstance(op, ast.Mult) and isinstance(node.left, ast.List)):
+            snap = self.snapshot(ctx)
+            a = self.ex(node.left, env, ctx)
+            if isinstance(op, ast.Add) and _kind(a.ty) == "list" and _kind(resolve(a.ty)[1]) == "tuple":
+                self._expect_tuple = list(resolve(resolve(a.ty)[1])[1])
+            try:
+                b = self.ex(node.right, env, ctx)
+            finally:
+                self._expect_tuple = None
+            ka, kb = _kind(a.ty), _kind(b.ty)
+            if isinstance(op, ast.Add) and ka == "list" and kb == "list" and _kind(resolve(a.ty)[1]) == "tuple":
+                if not unify(a.ty, b.ty):
+                    self.fail("list concatenation of different types", node)
+                return E("%s ++ %s" % (atom(a.code), atom(b.code)), a.ty)
+            if isinstance(op, ast.Sub) and ka == "list" and kb == "list":
+                if not unify(a.ty, b.ty):
+                    self.fail("set difference of sets with different element types", node)
+                return E("Py.setDiff %s %s" % (atom(a.code), atom(b.code)), a.ty)       # only sets support `-`
+            if isinstance(op, ast.BitOr):
+                if resolve(a.ty) == INT and resolve(b.ty) == INT:
+                    return E("Py.bor %s %s" % (atom(a.code), atom(b.code)), INT)
+                self.fail("operator BitOr on non-int operands in `%s`" % ast.unparse(node), node)
+            if isinstance(op, ast.BitAnd) and resolve(a.ty) == BOOL and resolve(b.ty) == BOOL:
+                return E("%s && %s" % (atom(a.code), atom(b.code)), BOOL,
+                         "%s ∧ %s" % (atom(a.as_prop()), atom(b.as_prop())))
+            if not isinstance(op, (ast.BitAnd, ast.BitOr)) and ("num" in (ka, kb) or "dyn" in (ka, kb)) \
+                    and ka in ("num", "dyn", "int") and kb in ("num", "dyn", "int"):
+                a, b = self.as_num(a, ctx, node), self.as_num(b, ctx, node)
+                sym, cls = {ast.Add: ("+", "Add"), ast.Sub: ("-", "Sub"), ast.Mult: ("*", "Mul"),
+                            ast.Div: ("/", "Div")}[type(op)]
+                self.need(cls)
+                return E("%s %s %s" % (atom(a.code), sym, atom(b.code)), NUM)
+            self.rollback(ctx, snap)
+        return super().ex_BinOp(node, env, ctx)
+
+    _expect_tuple = None      # component types for the next tuple display (an element of a list of known type)
+
+    def ex_Tuple(self, node, env, ctx):
+        exp = self._expect_tuple
+        if exp is not None and len(exp) == len(node.elts):
+            self._expect_tuple = None
+            es = [self.ex(x, env, ctx) for x in node.elts]
+            codes = [self.coerce(e, t, node, ctx) for e, t in zip(es, exp)]
+            return E("(" + ", ".join(codes) + ")", Tup(*exp))
+        return super().ex_Tuple(node, env, ctx)
+
+    def st_Expr(self, s, env, cont, later):
+        v = s.value
+        if isinstance(v, ast.Call) and isinstance(v.func, ast.Attribute) and v.func.attr == "append" \
+                and isinstance(v.func.value, ast.Name) and len(v.args) == 1 and v.func.value.id in env.vars:
+            xs = v.func.value.id
+            t = resolve(env.vars[xs])
+            if _kind(t) == "list" and _kind(t[1]) == "tuple" and isinstance(v.args[0], ast.Tuple):
+                ctx = Ctx()
+                self._expect_tuple = list(resolve(t[1])[1])
+                try:
+                    e = self.ex(v.args[0], env, ctx)
+                finally:
+                    self._expect_tuple = None
+                return self.emit_binds(ctx) + L("let %s := %s ++ [%s]" % (lname(xs), lname(xs), e.code)) + \
+                    cont(env.assign(xs, env.vars[xs]))
+        return super().st_Expr(s, env, cont, later)
+
+    def val_eq(self, a, b, node):
+        self.need("DecidableEq", "NatCast", "Neg")
+        return "Py.Val.eq %s %s" % (atom(self.coerce(a, DYN, node)), atom(self.coerce(b, DYN, node)))
+
+    def ex_Compare(self, node, env, ctx):
+        if len(node.ops) == 1 and self.none_test(node) is None:
+            op, rn = node.ops[0], node.comparators[0]
+            snap = self.snapshot(ctx)
+            left = self.ex(node.left, env, ctx)
+            kl = _kind(left.ty)
+            if isinstance(op, (ast.In, ast.NotIn)):
+                if isinstance(rn, (ast.Tuple, ast.List)):
+                    if kl == "dyn":
+                        alts = [self.ex(c, env, ctx) for c in rn.elts]
+                        ps = ["%s = true" % atom(self.val_eq(left, c, node)) for c in alts]
+                        p = " ∨ ".join(ps) or "False"
+                        p = p if isinstance(op, ast.In) else "¬ (%s)" % p
+                        return E("decide (%s)" % p, BOOL, p)
+                else:
+                    right = self.ex(rn, env, ctx)
+                    rt = resolve(right.ty)
+                    if _kind(rt) == "dict":
+                        if not unify(rt[1], left.ty):
+                            self.fail("`in`: key type", node)
+                        c = "Py.Dict.contains %s %s" % (atom(right.code), atom(left.code))
+                        if isinstance(op, ast.NotIn):
+                            return E("!(%s)" % c, BOOL)
+                        return E(c, BOOL)
+                self.rollback(ctx, snap)
+                return super().ex_Compare(node, env, ctx)
+            right = self.ex(rn, env, ctx)
+            iseq = isinstance(op, (ast.Eq, ast.NotEq))
+            if not iseq:
+                # `None` used as a number in an ordering comparison raises TypeError
+                if _kind(left.ty) == "opt" and resolve(resolve(left.ty)[1]) == NUM:
+                    left = self.bind_eff(ctx, "Py.notNone %s" % atom(left.code), NUM)
+                    kl = "num"
+                if _kind(right.ty) == "opt" and resolve(resolve(right.ty)[1]) == NUM:
+                    right = self.bind_eff(ctx, "Py.notNone %s" % atom(right.code), NUM)
+            kr = _kind(right.ty)
+            if "dyn" in (kl, kr) and iseq:
+                c = self.val_eq(left, right, node)
+                if isinstance(op, ast.Eq):
+                    return E(c, BOOL)
+                return E("!(%s)" % c, BOOL)
+            if "num" in (kl, kr) and kl in ("num", "int") and kr in ("num", "int"):
+                a, b = self.as_num(left, ctx, node), self.as_num(right, ctx, node)
+                sym = {ast.Eq: "=", ast.NotEq: "≠", ast.Lt: "<", ast.LtE: "≤", ast.Gt: ">", ast.GtE: "≥"}.get(type(op))
+                if sym is None:
+                    self.fail("comparison %s" % type(op).__name__, node)
+                if sym in ("=", "≠"):
+                    self.need("DecidableEq")
+                elif sym in ("<", ">"):
+                    self.need("LT", "DecLT")
+                else:
+                    self.need("LE", "DecLE")
+                p = "%s %s %s" % (atom(a.code), sym, atom(b.code))
+                return E("decide (%s)" % p, BOOL, p)
+            need_eq = iseq and (self.has_R(left.ty) or self.has_R(right.ty))
+            self.rollback(ctx, snap)
+            if need_eq:
+                self.need("DecidableEq")
+        return super().ex_Compare(node, env, ctx)
+
+    # `hasattr(x, 'a')` is the test `x.a is not None` on the Option-valued attribute accessor of a union
+    def none_test(self, node):
+        if isinstance(node, ast.Call) and isinstance(node.func, ast.Name) and node.func.id == "hasattr" \
+                and len(node.args) == 2 and isinstance(node.args[1], ast.Constant) and isinstance(node.args[1].value, str) \
+                and not node.keywords:
+            probe = ast.copy_location(ast.Attribute(value=node.args[0], attr=node.args[1].value, ctx=ast.Load()), node)
+            probe._probe = True
+            return probe, False
+        return super().none_test(node)
+
+    def isinstance_members(self, node, env):
+        """`isinstance(x, C)` for `x` of a union whose classes are RUNTIME classes related to `C` by the table
+        ISINSTANCE2 (C may be a builtin / numpy class with several of them as subclasses): (x code, [members])"""
+        if isinstance(node, ast.Call) and isinstance(node.func, ast.Name) and node.func.id == "isinstance" \
+                and len(node.args) == 2 and isinstance(node.args[0], ast.Name) and not node.keywords:
+            n = node.args[0].id
+            t = resolve(env.narrow[n][1]) if n in env.narrow else (resolve(env.vars[n]) if n in env.vars else None)
+            if t is not None and _kind(t) == "union":
+                ms = ISINSTANCE2.get((t[1], ast.unparse(node.args[1])))
+                if ms is not None:
+                    return (env.narrow[n][0] if n in env.narrow else lname(n)), ms
+        return None
+
+    def isinstance_test(self, node, env):
+        """(variable name, class name, scrutinee is Optional) for `isinstance(x, C)` with `x` a local of union type"""
+        if self.isinstance_members(node, env) is not None:
+            return None
+        if isinstance(node, ast.Call) and isinstance(node.func, ast.Name) and node.func.id == "isinstance" \
+                and len(node.args) == 2 and isinstance(node.args[0], ast.Name) and isinstance(node.args[1], ast.Name) \
+                and not node.keywords:
+            n = node.args[0].id
+            if n in env.narrow:
+                t = resolve(env.narrow[n][1])
+            elif n in env.vars:
+                t = resolve(env.vars[n])
+            else:
+                return None
+            opt = False
+            if _kind(t) == "opt":
+                t, opt = resolve(t[1]), True
+            if _kind(t) == "union" and node.args[1].id in self.unions[t[1]]:
+                return n, node.args[1].id, opt, t[1]
+        return None
+
+    def has_none_test(self, node):
+        for n in ast.walk(node):
+            if self.none_test(n) is not None:
+                return True
+            if isinstance(n, ast.Call) and isinstance(n.func, ast.Name) and n.func.id == "isinstance" and len(n.args) == 2 \
+                    and isinstance(n.args[1], ast.Name) and any(n.args[1].id in ms for ms in self.unions.values()):
+                return True
+        return False
+
+    def cond_tree(self, test, env, ctx, on_true, on_false):
+        it = self.isinstance_test(test, env)
+        if it is not None:
+            n, cls, opt, uname = it
+            scrut = env.narrow[n][0] if n in env.narrow else lname(n)
+            e_then = env.copy()
+            e_then.narrow[n] = (lname(n), Struct(cls))
+            pat = ".%s %s" % (cls, lname(n))
+            if opt:
+                pat = "some (%s)" % pat
+            return ("matchcls", scrut, pat, on_true(e_then), on_false(env))
+        plain = not (isinstance(test, ast.UnaryOp) and isinstance(test.op, ast.Not) and self.has_none_test(test.operand)) \
+            and not (isinstance(test, ast.BoolOp) and self.has_none_test(test)) and self.none_test(test) is None
+        if ctx is None and plain:
+            # an operand after a None / hasattr / isinstance test that can raise: evaluated inside that branch
+            sub = Ctx()
+            c = self.truthy(self.ex(test, env, sub), test)
+            node = ("if", c.as_prop(), on_true(env), on_false(env))
+            if sub.binds:
+                if any(b[2] for b in sub.binds) and not self.eff:
+                    raise NeedEffect()
+                return ("seq", list(sub.binds), node)
+            return node
+        return super().cond_tree(test, env, ctx, on_true, on_false)
+
+    def render_tree(self, tree, leaf_lines, eff):
+        if isinstance(tree, tuple) and tree[0] == "matchcls":
+            _, scrut, pat, t_tree, f_tree = tree
+            t_lines = self.peephole(self.render_tree(t_tree, leaf_lines, eff))
+            f_lines = self.peephole(self.render_tree(f_tree, leaf_lines, eff))
+            return L("match %s with" % scrut) + L("| %s =>" % pat) + ind(t_lines) + L("| _ =>") + ind(f_lines)
+        if isinstance(tree, tuple) and tree[0] == "seq":
+            out = []
+            for b in tree[1]:
+                out += self.bind_lines(b)
+            return out + self.render_tree(tree[2], leaf_lines, eff)
+        return super().render_tree(tree, leaf_lines, eff)
+
+    # -- attributes --------------------------------------------------------------------------------
+    def class_constant(self, cls, attr, node):
+        c = self.class_node(cls)
+        if c is None:
+            return None
+        for n in c.body:
+            if isinstance(n, ast.Assign) and len(n.targets) == 1 and isinstance(n.targets[0], ast.Name) \
+                    and n.targets[0].id == attr:
+                lean = "%s.%s" % (cls, attr)
+                if lean not in self.const_defs:
+                    saved = (self.eff, self.counter)
+                    self.eff = False
+                    try:
+                        cctx = Ctx()
+                        e = self.ex(n.value, Env(), cctx)
+                        if cctx.binds:
+                            self.fail("class constant `%s` is not a constant expression" % lean, node)
+                    except NeedEffect:
+                        self.fail("class constant `%s` is not a constant expression" % lean, node)
+                    finally:
+                        self.eff, self.counter = saved
+                    self.const_defs[lean] = (e.code, e.ty, "%s: `%s.%s = %s`" % (self.cur.file, cls, attr, ast.unparse(n.value)))
+                return E(lean, self.const_defs[lean][1])
+        return None
+
+    def module_alias(self, name):
+        """is `name` an imported module (`import a.b as name`)"""
+        for n in self.src.tree(self.cur.file).body:
+            if isinstance(n, ast.Import):
+                for al in n.names:
+                    if (al.asname or al.name.split(".")[0]) == name:
+                        return al.name
+        return None
+
+    def union_attr(self, uname, attr, node):
+        """the generated accessor `U.attr? : U → Option T` (`none`: the object's class has no such attribute)"""
+        fty, have = None, []
+        for m in self.unions[uname]:
+            fs = dict(self.structs[m])
+            if attr in fs:
+                if fty is not None and resolve(fty) != resolve(fs[attr]):
+                    self.fail("attribute `%s` has different types in the classes of %s" % (attr, uname), node)
+                fty = fs[attr]
+                have.append(m)
+        if fty is None:
+            self.fail("no class of the union %s has an attribute `%s` in the signature table" % (uname, attr), node)
+        lean = "%s.%s?" % (uname, attr)
+        if lean not in self.aux:
+            up = self.struct_params.get(uname)
+            binder = (" {%s : Type}" % " ".join(up)) if up else ""
+            lines = ["/-- `x.%s` for `x` of one of the classes of `%s`; `none`: the class has no such attribute "
+                     "(`hasattr` is false, reading it raises AttributeError) -/" % (attr, uname),
+                     "def %s%s (x : %s) : Option %s :=" % (lean, binder, lean_type(Union(uname)), lean_type(fty, False)),
+                     "  match x with"]
+            for m in have:
+                lines.append("  | .%s o => some o.%s" % (m, lname(attr)))
+            if len(have) < len(self.unions[uname]):
+                lines.append("  | _ => none")
+            self.aux[lean] = "\n".join(lines)
+            self.aux_info[lean] = dict(abs_params=[], classes=set(), effect=False)
+        self.use_aux(lean)
+        return lean, fty
+
+    def use_aux(self, lean):
+        lst = self.aux_before.setdefault(self.cur.qualname, [])
+        if lean not in lst and not any(lean in v for v in self.aux_before.values()):
+            lst.append(lean)
+
+    def ex_Attribute(self, node, env, ctx):
+        key = ast.unparse(node)
+        if key in env.narrow:
+            ln, ty = env.narrow[key]
+            return E(ln, ty)
+        if isinstance(node.value, ast.Name) and node.value.id not in env.vars and node.value.id not in env.narrow:
+            c = self.class_constant(node.value.id, node.attr, node)
+            if c is not None:
+                return c
+            if self.module_alias(node.value.id) is not None:
+                # an object of another module is identified with its name
+                e = E("[" + ", ".join(char_lit(ch) for ch in node.attr) + "]", Lst(CHAR))
+                e.const_str = node.attr
+                return e
+        snap = self.snapshot(ctx)
+        v = self.ex(node.value, env, ctx)
+        t = resolve(v.ty)
+        if _kind(t) == "union" and not any(node.attr in dict(self.structs[m]) for m in self.unions[t[1]]) \
+                and not getattr(node, "_probe", False):
+            # a @property of the classes of the union: dispatch like a method without arguments
+            return self.call_dispatch(t[1], node.attr, v, [], env, ctx, node)
+        if _kind(t) == "union":
+            lean, fty = self.union_attr(t[1], node.attr, node)
+            opt = E("%s %s" % (lean, atom(v.code)), Opt(fty))
+            if getattr(node, "_probe", False):
+                return opt
+            return self.bind_eff(ctx, "Py.attr (%s)" % opt.code, fty)
+        if getattr(node, "_probe", False):
+            self.fail("`hasattr` on a value that is not of a union type", node)
+        if t == INT and getattr(self.cur, "types_as_enum", False):
+            if node.attr == "enum_value":
+                return v
+            if node.attr in self.cur.abstract.get(("type", node.attr), ()) or ("type", node.attr) in self.cur.abstract:
+                return self.call_abstract(("type", node.attr), [], env, ctx, node, recv=v)
+        if _kind(t) == "struct" and node.attr not in dict(self.structs[t[1]]):
+            callee = self.targets.get("%s.%s" % (t[1], node.attr))
+            if callee is not None and callee.is_property:
+                return self.call_target(callee, (node.value, v), [], env, ctx, node)
+        self.rollback(ctx, snap)
+        return super().ex_Attribute(node, env, ctx)
+
+    def ex_Subscript(self, node, env, ctx):
+        key = ast.unparse(node)
+        if key in env.narrow:
+            ln, ty = env.narrow[key]
+            return E(ln, ty)
+        if not isinstance(node.slice, ast.Slice) and not (
+                isinstance(node.value, ast.Name) and node.value.id not in env.vars and isinstance(node.slice, ast.Constant)):
+            snap = self.snapshot(ctx)
+            v = self.ex(node.value, env, ctx)
+            t = resolve(v.ty)
+            if _kind(t) in ("list", "dict"):
+                i = self.ex(node.slice, env, ctx)
+                if _kind(i.ty) == "dyn":
+                    if _kind(t) == "list":
+                        idx = self.coerce(i, INT, node, ctx)
+                        return self.bind_eff(ctx, "Py.index %s %s" % (atom(v.code), atom(idx)), t[1])
+                    if resolve(t[1]) == INT:
+                        self.need("DecidableEq", "NatCast", "Neg")
+                        return self.bind_eff(ctx, "Py.Dict.getV %s %s" % (atom(v.code), atom(i.code)), t[2])
+            self.rollback(ctx, snap)
+        return super().ex_Subscript(node, env, ctx)
+
+    # -- comprehensions over lazy generators ---------------------------------------------------------
+    def subst_lazy(self, node, env):
+        """a local bound to a generator expression is replaced by that expression where it is iterated"""
+        if isinstance(node, ast.Name) and node.id in getattr(env, "lazy", {}):
+            return env.lazy[node.id]
+        return node
+
+    def iterable(self, node, env, ctx):
+        node = self.subst_lazy(node, env)
+        if isinstance(node, ast.Call) and isinstance(node.func, ast.Attribute) and node.func.attr == "keys" and not node.args:
+            d = self.ex(node.func.value, env, ctx)
+            t = resolve(d.ty)
+            if _kind(t) == "dict":
+                return "Py.Dict.keys %s" % atom(d.code), t[1]
+        if isinstance(node, ast.GeneratorExp):
+            # a nested generator is evaluated eagerly: only sound when its elements cannot raise
+            saved = self.eff
+            try:
+                self.eff = False
+                e = self.comp_list(node, env, ctx)
+            except NeedEffect:
+                self.eff = saved
+                self.fail("iteration over a generator whose elements can raise (evaluation is lazy in Python)", node)
+            finally:
+                self.eff = saved
+            return e.code, resolve(e.ty)[1]
+        return super().iterable(node, env, ctx)
+
+    def next_fused(self, gen, env, ctx, node):
+        """`next(ELT for V in (E2 for P in XS) if COND)` with lazy evaluation -> `Py.firstE XS fun P => …`"""
+        if len(gen.generators) != 1:
+            self.fail("comprehension with more than one `for`", node)
+        g = gen.generators[0]
+        inner = self.subst_lazy(g.iter, env)
+        if not (isinstance(inner, ast.GeneratorExp) and len(inner.generators) == 1 and not inner.generators[0].ifs):
+            return None
+        gi = inner.generators[0]
+        xs_code, x_ty = self.iterable(gi.iter, env, ctx)
+        pat, env_p = self.pattern(gi.target, x_ty, env, node)
+        if not self.eff:
+            raise NeedEffect()
+        sub = Ctx()
+        v = self.ex(inner.elt, env_p, sub)
+        vpat, env_v = self.pattern(g.target, v.ty, env_p, node)
+        lines = []
+        for b in sub.binds[:-1] if (sub.binds and sub.binds[-1][0] == v.code) else sub.binds:
+            lines += self.bind_lines(b)
+        if sub.binds and sub.binds[-1][0] == v.code:
+            lines += self.bind_lines((vpat, sub.binds[-1][1], sub.binds[-1][2]))
+        else:
+            lines += L("let %s := %s" % (vpat, v.code))
+        res_ty = TVar()
+        cond = g.ifs[0] if len(g.ifs) == 1 else (ast.BoolOp(op=ast.And(), values=list(g.ifs)) if g.ifs else ast.Constant(value=True))
+        ast.copy_location(cond, node)
+        ast.fix_missing_locations(cond)
+
+        def hit(e, c):
+            r = self.ex(gen.elt, e, c)
+            if not unify(res_ty, r.ty):
+                self.fail("`next`: element types differ", node)
+            return E("some " + atom(typed(r)), Opt(res_ty))
+
+        def miss(e, c):
+            return E("none", Opt(res_ty))
+        sub2 = Ctx()
+        clines, _, ceff = self.cond_lines(cond, env_v, sub2, hit, miss, node)
+        for b in sub2.binds:
+            lines += self.bind_lines(b)
+        if not ceff:
+            if len(clines) == 1:
+                clines = L("pure (%s)" % clines[0][1])
+            else:
+                clines = self.purify(clines)
+        lines += clines
+        t = self.fresh()
+        ctx.binds.append((t, L("Py.firstE %s fun %s => do" % (atom(xs_code), pat)) + ind(lines, 4), True))
+        return E(t, res_ty)
+
+    def purify(self, lines):
+        """wrap the leaves of a pure conditional in `pure`"""
+        out = []
+        for (i, tx) in lines:
+            s = str(tx)
+            if s.startswith(("if ", "else", "match ", "| ", "let ")):
+                out.append((i, tx))
+            else:
+                out.append((i, "pure (%s)" % s))
+        return out
+
+    # -- calls -------------------------------------------------------------------------------------
+    def ex_Call(self, node, env, ctx):
+        fn = node.func
+        fname = ast.unparse(fn)
+        args = node.args
+        if isinstance(fn, ast.Name) and fn.id not in env.vars:
+            n = fn.id
+            if (n + ".__init__") in self.targets and n not in self.cur.abstract:
+                return self.call_target(self.targets[n + ".__init__"], None, args, env, ctx, node)
+            if n in CONSTRUCTORS2 and not node.keywords:
+                sname, fields = CONSTRUCTORS2[n]
+                if len(args) > len(fields):
+                    self.fail("constructor `%s` with %d arguments" % (n, len(args)), node)
+                parts = []
+                for i, f in enumerate(fields):
+                    fty = self.field_type(sname, f, node)
+                    if i < len(args):
+                        parts.append("%s := %s" % (lname(f), self.coerce(self.ex(args[i], env, ctx), fty, node, ctx)))
+                    else:
+                        parts.append("%s := none" % lname(f))
+                return E("{ " + ", ".join(parts) + " : %s }" % lean_type(Struct(sname)), Struct(sname))
+            if n == "__sorted_by__" and len(args) == 2 and isinstance(args[1], ast.Lambda) and len(args[1].args.args) == 1:
+                xs = self.ex(args[0], env, ctx)
+                t = resolve(xs.ty)
+                if _kind(t) != "list":
+                    self.fail("`.sort` of a %s" % lean_type(t), node)
+                pat, env2 = self.pattern(ast.Name(id=args[1].args.args[0].arg, ctx=ast.Store()), t[1], env, node)
+                if not self.eff:
+                    raise NeedEffect()
+
+                def key(e, c):
+                    k = self.ex(args[1].body, e, c)
+                    return E(self.coerce(k, INT, node, c), INT)       # a key `None` cannot be compared: TypeError
+                f, _, eff = self.lam(pat, env2, key)
+                if not eff:
+                    f = "fun %s => pure (%s)" % (pat, f[len("fun %s => " % pat):])
+                return self.bind_eff(ctx, "Py.sortByKeyE %s (%s)" % (atom(xs.code), f), xs.ty)
+            if n == "__update__" and len(args) == 2:
+                a = self.ex(args[0], env, ctx)
+                b = self.ex(args[1], env, ctx)
+                if not unify(a.ty, b.ty):
+                    self.fail("`.update` with a value of another type", node)
+                if _kind(a.ty) == "list":
+                    return E("Py.setUnion %s %s" % (atom(a.code), atom(b.code)), a.ty)
+                if _kind(a.ty) == "dict":
+                    return E("Py.Dict.update %s %s" % (atom(a.code), atom(b.code)), a.ty)
+                self.fail("`.update` of a %s" % lean_type(a.ty), node)
+            if n == "dict" and len(args) == 1 and isinstance(args[0], ast.GeneratorExp) and not node.keywords:
+                v = self.comp_list(args[0], env, ctx)
+                t = resolve(resolve(v.ty)[1])
+                if not (_kind(t) == "tuple" and len(t[1]) == 2):
+                    self.fail("`dict(...)` of something that is not a sequence of pairs", node)
+                return E("Py.Dict.ofPairs %s" % atom(v.code), Dct(t[1][0], t[1][1]))
+            if n == "__closed__" and len(args) == 1:
+                e = self.ex(args[0], env, ctx)
+                t = resolve(e.ty)
+                if _kind(t) == "opt":
+                    e = self.bind_eff(ctx, "Py.attr %s" % atom(e.code), t[1])      # `None.close()`: AttributeError
+                    t = resolve(t[1])
+                if t != self.cur.ret_yield:
+                    self.fail("`.close()` on a value that is not a file handle by the signature table", node)
+                return e
+            if n == "__mk__":
+                sname = self.cur.cls
+                fields = self.structs[sname]
+                parts = []
+                for (f, fty), a in zip(fields, args):
+                    e = self.ex(a, env, ctx)
+                    parts.append("%s := %s" % (lname(f), self.coerce(e, fty, node, ctx)))
+                return E("{ " + ", ".join(parts) + " : %s }" % lean_type(Struct(sname)), Struct(sname))
+            if n == "int" and len(args) == 1 and not node.keywords:
+                snap = self.snapshot(ctx)
+                v = self.ex(args[0], env, ctx)
+                if _kind(v.ty) == "dyn":
+                    return self.bind_eff(ctx, "Py.Val.toIntConv %s" % atom(v.code), INT)
+                self.rollback(ctx, snap)
+            if n == "range" and len(args) == 1 and not node.keywords:
+                snap = self.snapshot(ctx)
+                v = self.ex(args[0], env, ctx)
+                if _kind(v.ty) == "dyn":
+                    return E("Py.range %s" % atom(self.coerce(v, INT, node, ctx)), Lst(INT))
+                self.rollback(ctx, snap)
+            if n == "hasattr":
+                nt = self.none_test(node)
+                if nt is not None:
+                    o = self.ex(nt[0], env, ctx)
+                    return E("%s.isSome" % atom(o.code), BOOL)
+            if n == "isinstance" and len(args) == 2 and not node.keywords:
+                im = self.isinstance_members(node, env)
+                if im is not None:
+                    scrut, ms = im
+                    pats = " | ".join(".%s _" % m for m in ms)
+                    return E("(match %s with | %s => true | _ => false)" % (scrut, pats), BOOL)
+            if n == "isinstance" and len(args) == 2 and isinstance(args[1], ast.Name) and not node.keywords:
+                it = self.isinstance_test(node, env)
+                if it is not None:
+                    nme, cls, opt, uname = it
+                    scrut = env.narrow[nme][0] if nme in env.narrow else lname(nme)
+                    pat = ".%s _" % cls
+                    if opt:
+                        pat = "some (%s)" % pat
+                    return E("(match %s with | %s => true | _ => false)" % (scrut, pat), BOOL)
+                snap = self.snapshot(ctx)
+                v = self.ex(args[0], env, ctx)
+                if resolve(v.ty) == INT and args[1].id == "int":
+                    return E("true", BOOL, "True")
+                self.rollback(ctx, snap)
+            if n == "next" and len(args) == 1 and isinstance(args[0], ast.GeneratorExp) and not node.keywords:
+                r = self.next_fused(args[0], env, ctx, node)
+                if r is not None:
+                    return r
+            if n == "len" and len(args) == 1 and not node.keywords:
+                snap = self.snapshot(ctx)
+                v = self.ex(args[0], env, ctx)
+                if _kind(v.ty) == "dyn":
+                    self.fail("len() of a dynamically typed value", node)
+                self.rollback(ctx, snap)
+        if fname == "np.array" and len(args) == 1 and not node.keywords:
+            return self.ex(args[0], env, ctx)        # a 1-d array is the list of its elements
+        if fname == "np.reciprocal" and len(args) == 1 and not node.keywords:
+            v = self.as_num(self.ex(args[0], env, ctx), ctx, node)
+            self.need("Inv")
+            return E("%s⁻¹" % atom(v.code), NUM)
+        if fname == "np.zeros" and len(args) == 1 and isinstance(args[0], ast.Call) and ast.unparse(args[0].func) == "len" \
+                and len(args[0].args) == 1:
+            v = self.ex(args[0].args[0], env, ctx)
+            if resolve(v.ty) == NUM:
+                self.need("NatCast")
+                return E("((0 : Nat) : R)", NUM)        # every element of `np.zeros(len(data))`
+        if isinstance(fn, ast.Attribute):
+            if fn.attr in ("astype", "copy") and fname not in self.cur.abstract:
+                snap = self.snapshot(ctx)
+                v = self.ex(fn.value, env, ctx)
+                if resolve(v.ty) == NUM:
+                    return v                             # dtype conversions / copies do not change the (exact) value
+                self.rollback(ctx, snap)
+            if fn.attr == "endswith" and len(args) == 1 and not node.keywords and fname not in self.cur.abstract:
+                snap = self.snapshot(ctx)
+                v = self.ex(fn.value, env, ctx)
+                a = self.ex(args[0], env, ctx)
+                if unify(v.ty, Lst(CHAR)) and unify(a.ty, Lst(CHAR)):
+                    return E("Py.endsWith %s %s" % (atom(v.code), atom(a.code)), BOOL)
+                self.rollback(ctx, snap)
+            if fn.attr == "keys" and not args:
+                code, kty = self.iterable(node, env, ctx)
+                return E(code, Lst(kty))
+            if fname in self.targets and isinstance(fn.value, ast.Name) and fn.value.id not in env.vars \
+                    and fn.value.id not in env.narrow:
+                if node.keywords:
+                    self.fail("keyword arguments in `%s`" % ast.unparse(node), node)
+                return self.call_target(self.targets[fname], None, args, env, ctx, node)
+            if fname not in self.cur.abstract:
+                snap = self.snapshot(ctx)
+                read_before = ctx.self_read
+                recv = self.ex(fn.value, env, ctx)
+                t = resolve(recv.ty)
+                if _kind(t) == "union":
+                    if node.keywords:
+                        self.fail("keyword arguments in `%s`" % ast.unparse(node), node)
+                    return self.call_dispatch(t[1], fn.attr, recv, args, env, ctx, node)
+                if _kind(t) == "abstract" and (t[1], fn.attr) in self.cur.abstract:
+                    return self.call_abstract((t[1], fn.attr), args, env, ctx, node, recv=recv)
+                if _kind(t) == "struct" and (t[1] + "." + fn.attr) in self.targets and (t[1], fn.attr) not in self.cur.abstract:
+                    if node.keywords:
+                        self.fail("keyword arguments in `%s`" % ast.unparse(node), node)
+                    ctx.self_read_before_call = read_before
+                    return self.call_target(self.targets[t[1] + "." + fn.attr], (fn.value, recv), args, env, ctx, node)
+                self.rollback(ctx, snap)
+        return super().ex_Call(node, env, ctx)
+
+    def abs_args(self, params, node):
+        """the abstract parameters a callee needs are parameters of the caller too (same name, same type)"""
+        out = []
+        for (lean, ty) in params:
+            have = dict(self.inherited)
+            own = {v[0]: v[1] for v in self.cur.abstract.values()}
+            if lean in own:
+                if lean_type(own[lean]) != lean_type(ty):
+                    self.fail("abstract parameter `%s` has different types in caller and callee" % lean, node)
+                self.used_abstract.add(lean)
+            elif lean in have:
+                if lean_type(have[lean]) != lean_type(ty):
+                    self.fail("abstract parameter `%s` has different types in two callees" % lean, node)
+            else:
+                self.inherited.append((lean, ty))
+            out.append(lean)
+        return out
+
+    def call_target(self, callee, recv, args, env, ctx, node):
+        if not isinstance(callee, Target2):
+            return super().call_target(callee, recv, args, env, ctx, node)
+        if callee.effect is None:
+            self.fail("call of `%s` before it is translated (order of TARGETS)" % callee.qualname, node)
+        ptypes = callee.params
+        args = list(args)
+        kws = list(getattr(node, "keywords", None) or []) if isinstance(node, ast.Call) else []
+        if kws or len(args) < len(ptypes):
+            # keyword arguments and defaults (constants) of the callee
+            names = callee.param_names
+            dflt = dict(zip(names[len(names) - len(callee.defaults):], callee.defaults)) if callee.defaults else {}
+            given = {k.arg: k.value for k in kws}
+            if None in given or any(k not in names for k in given):
+                self.fail("keyword arguments of `%s`" % ast.unparse(node), node)
+            for nme in names[len(args):]:
+                if nme in given:
+                    args.append(given.pop(nme))
+                elif nme in dflt:
+                    args.append(dflt[nme])
+                else:
+                    self.fail("call of `%s`: parameter `%s` is missing" % (callee.qualname, nme), node)
+            if given:
+                self.fail("call of `%s`: parameter given twice" % callee.qualname, node)
+        es = [self.ex(a, env, ctx) for a in args]
+        if len(es) != len(ptypes):
+            self.fail("call of `%s` with %d arguments, %d expected" % (callee.qualname, len(es), len(ptypes)), node)
+        self.classes |= callee.classes
+        lead = self.abs_args(callee.abs_params, node)
+        if callee.needs_fuel:
+            self.uses_fuel = True
+            lead = ["fuel"] + lead
+        argcodes = [atom(self.coerce(e, pt, node, ctx)) for e, pt in zip(es, ptypes)]
+        if recv is not None and not callee.static:
+            argcodes = [atom(recv[1].code)] + argcodes
+        code = " ".join([callee.lean_name] + lead + argcodes)
+        ret = callee.ret if callee.ret is not None else UNIT
+        if callee.mutates:
+            self.fail("call of a method that updates its object (not supported in part 2)", node)
+        if callee.effect:
+            return self.bind_eff(ctx, code, ret)
+        return E(code, ret)
+
+    def call_dispatch(self, uname, meth, recv, args, env, ctx, node):
+        """`x.m(a1…an)` for `x` of a union type: a generated definition that matches on the class of `x`"""
+        es = [self.ex(a, env, ctx) for a in args]
+        n = len(es)
+        lean = "%s_%s_%d" % (uname, meth, n)     # not in the namespace of the inductive: its constructors carry the class names
+        if lean not in self.aux:
+            arms, ptypes, ret, eff = [], None, None, False
+            info = dict(abs_params=[], classes=set(), effect=True)
+            rows = []
+            for m in self.unions[uname]:
+                fnode = self.class_method(m, meth)
+                ab = self.cur.abstract.get((m, meth))
+                callee = self.targets.get("%s.%s" % (m, meth))
+                if fnode is None:
+                    c = self.class_node(m)
+                    if c is None or any(not (isinstance(b, ast.Name) and b.id == "object") for b in c.bases):
+                        self.fail("class %s (method `%s`) not found, or it has base classes" % (m, meth), node)
+                    rows.append((m, "raise", "AttributeError"))
+                    continue
+                arity = len(fnode.args.args) - 1
+                if arity != n or fnode.args.vararg or fnode.args.defaults:
+                    if fnode.args.vararg or fnode.args.defaults:
+                        self.fail("method `%s.%s` has default / variadic parameters" % (m, meth), node)
+                    rows.append((m, "raise", "TypeError"))
+                    continue
+                if ab is not None:
+                    lean_f, fty = ab[0], ab[1]
+                    pts, rt, ef = list(fty[1][1:]), fty[2], fty[3]
+                    rows.append((m, "abstract", (lean_f, fty, ef)))
+                elif callee is not None and isinstance(callee, Target2) and callee.effect is not None:
+                    pts, rt = list(callee.params), callee.ret
+                    rows.append((m, "target", callee))
+                else:
+                    self.fail("method `%s.%s` is neither translated nor declared abstract" % (m, meth), node)
+                if ptypes is None:
+                    ptypes, ret = pts, rt
+                elif [lean_type(x) for x in ptypes] != [lean_type(x) for x in pts] or lean_type(ret) != lean_type(rt):
+                    self.fail("method `%s` has different signatures in the classes of %s" % (meth, uname), node)
+            if ptypes is None:
+                self.fail("no class of %s has a method `%s` with %d parameters" % (uname, meth, n), node)
+            anames = ["a%d" % (i + 1) for i in range(n)]
+            for (m, kind, x) in rows:
+                if kind == "raise":
+                    arms.append('  | .%s _ => throw "%s"' % (m, x))
+                elif kind == "abstract":
+                    lean_f, fty, ef = x
+                    if (lean_f, fty) not in info["abs_params"]:
+                        info["abs_params"].append((lean_f, fty))
+                    call = " ".join([lean_f, "o"] + anames)
+                    arms.append("  | .%s o => %s" % (m, call if ef else "pure (%s)" % call))
+                else:
+                    for ap in x.abs_params:
+                        if ap not in info["abs_params"]:
+                            info["abs_params"].append(ap)
+                    info["classes"] |= x.classes
+                    if x.needs_fuel:
+                        self.fail("dispatch to a recursive method", node)
+                    call = " ".join([x.lean_name] + [a for a, _ in x.abs_params] + ["o"] + anames)
+                    arms.append("  | .%s o => %s" % (m, call if x.effect else "pure (%s)" % call))
+            binders = self.binders([Union(uname)] + ptypes + [ret] + [ty for _, ty in info["abs_params"]], info["classes"])
+            params = binders + ["(%s : %s)" % (a, lean_type(ty)) for a, ty in info["abs_params"]] + \
+                ["(x : %s)" % lean_type(Union(uname))] + ["(%s : %s)" % (a, lean_type(t)) for a, t in zip(anames, ptypes)]
+            text = ["/-- dynamic dispatch of `x.%s(%s)` on the class of `x`: a class without the method raises "
+                    "AttributeError, a class whose method takes another number of arguments TypeError -/" % (meth, ", ".join(anames)),
+                    "def %s %s : Except Py.Exc %s :=" % (lean, " ".join(params), lean_type(ret, False)),
+                    "  match x with"] + arms
+            self.aux[lean] = "\n".join(text)
+            info["ptypes"], info["ret"] = ptypes, ret
+            self.aux_info[lean] = info
+        self.use_aux(lean)
+        info = self.aux_info[lean]
+        self.classes |= info["classes"]
+        lead = self.abs_args(info["abs_params"], node)
+        argcodes = [atom(self.coerce(e, pt, node, ctx)) for e, pt in zip(es, info["ptypes"])]
+        code = " ".join([lean] + lead + [atom(recv.code)] + argcodes)
+        return self.bind_eff(ctx, code, info["ret"])
+
+    def binders(self, types, classes):
+        tps = []
+        if any(self.has_R(t) for t in types) or classes:
+            tps.append("R")
+        for t in types:
+            _abstract_names(t, tps)
+        out = []
+        if tps:
+            out.append("{%s : Type}" % " ".join(tps))
+        for c in CLASS_ORDER:
+            if c in classes:
+                out.append(CLASS_BINDER.get(c, "[%s R]" % c))
+        return out
+
+    # -- statements --------------------------------------------------------------------------------
+    def block(self, stmts, env, k, after=()):
+        if stmts:
+            s = stmts[0]
+            if isinstance(s, ast.Assign) and len(s.targets) == 1 and isinstance(s.targets[0], ast.Name) \
+                    and isinstance(s.value, ast.GeneratorExp):
+                # a generator is lazy: nothing happens here, the expression is substituted where it is iterated
+                name = s.targets[0].id
+                uses = [n for st in list(stmts[1:]) + list(after) for n in ast.walk(st)
+                        if isinstance(n, ast.Name) and n.id == name]
+                if len(uses) != 1:
+                    self.fail("the generator `%s` must be iterated exactly once" % name, s)
+                env2 = env.copy()
+                env2.lazy = dict(env.lazy)
+                env2.lazy[name] = s.value
+                return self.block(stmts[1:], env2, k, after)
+            if isinstance(s, ast.Expr) and isinstance(s.value, ast.Call) and ast.unparse(s.value.func) == "np.reciprocal" \
+                    and len(s.value.args) == 1 and len(s.value.keywords) == 1 and s.value.keywords[0].arg == "out" \
+                    and isinstance(s.value.args[0], ast.Name) and ast.unparse(s.value.keywords[0].value) == s.value.args[0].id:
+                x = s.value.args[0].id
+                new = ast.parse("%s = np.reciprocal(%s)" % (x, x)).body
+                for n in new:
+                    for sub in ast.walk(n):
+                        ast.copy_location(sub, s)
+                return self.block(list(new) + list(stmts[1:]), env, k, after)
+        return super().block(stmts, env, k, after)
+
+    @staticmethod
+    def paren_do(lines):
+        out = L("(do") + ind(lines)
+        i, t = out[-1]
+        out[-1] = (i, t + ")")
+        return out
+
+    def st_Try(self, s, env, cont, later):
+        if len(s.handlers) == 1 and not s.orelse and not s.finalbody and isinstance(s.handlers[0].type, ast.Name) \
+                and s.handlers[0].name is None:
+            h = s.handlers[0]
+            cls = h.type.id
+            iter_next = any(isinstance(n, ast.Call) and isinstance(n.func, ast.Name) and n.func.id == "next"
+                            and len(n.args) == 1 and isinstance(n.args[0], ast.Name) and n.args[0].id in env.vars
+                            for st in s.body for n in ast.walk(st))
+            if not iter_next and cls in CATCHABLE + ("StopIteration",):
+                if terminates(s.body) and terminates(h.body) and not _loop_escape(s.body) and not _loop_escape(h.body):
+                    if not self.eff:
+                        raise NeedEffect()
+                    b = self.block(list(s.body), env, lambda e: [], ())
+                    hl = self.block(list(h.body), env, lambda e: [], ())
+                    return L("Py.tryCatch") + ind(self.paren_do(b)) + ind(L('"%s"' % cls)) + ind(self.paren_do(hl))
+                if terminates(h.body) and not has_escape(s.body, True):
+                    return self.try_opt(s, h, env, cont, later)
+        return super().st_Try(s, env, cont, later)
+
+    def try_opt(self, s, h, env, cont, later):
+        """`try: body except E: handler` where the handler leaves the block (`continue` / `return` / `raise` / `break`)"""
+        if not self.eff:
+            raise NeedEffect()
+        live = self.live_after(later)
+        names = [n for n in assigned_names(s.body) if n in live and n != "self"]
+        got = {}
+
+        def join(e):
+            for n in names:
+                if n not in e.vars:
+                    self.fail("`%s` may be unbound after the `try`" % n, s)
+            got["env"] = e
+            return L("pure " + atom(self.tuple_code([lname(_lean_var(n)) for n in names])))
+        b_lines = self.block(list(s.body), env, join, ())
+        if "env" not in got:
+            self.fail("the body of the `try` never falls through", s)
+        env2 = env
+        for n in names:
+            env2 = env2.assign(n, var_type(got["env"], n))
+        t = self.fresh()
+        pat = self.state_tuple([_lean_var(n) for n in names]) if names else "_"
+        h_lines = self.block(list(h.body), env, lambda e: [], ())
+        return L("let %s ← Py.tryOpt" % t) + ind(self.paren_do(b_lines)) + ind(L('"%s"' % h.type.id)) + \
+            L("match %s with" % t) + L("| none =>") + ind(h_lines) + L("| some %s =>" % pat) + ind(cont(env2))
+
+    def assign_to(self, target, value, env, cont, s):
+        if isinstance(target, ast.Name) and target.id in self.cur.locals:
+            ctx = Ctx()
+            e = self.ex(value, env, ctx)
+            ty = self.cur.locals[target.id]
+            code = self.coerce(e, ty, s, ctx)
+            n = target.id
+            return self.emit_binds(ctx) + L("let %s : %s := %s" % (lname(n), lean_type(ty), code)) + \
+                cont(self.after_ctx(env, ctx).assign(n, ty))
+        if isinstance(target, ast.Subscript) and isinstance(target.value, ast.Name) and target.value.id in env.vars \
+                and _kind(env.vars[target.value.id]) == "list":
+            d = target.value.id
+            t = resolve(env.vars[d])
+            ctx = Ctx()
+            if not self.eff:
+                raise NeedEffect()
+            kx = self.ex(target.slice, env, ctx)
+            e = self.ex(value, env, ctx)
+            idx = self.coerce(kx, INT, s, ctx)
+            v = self.coerce(e, t[1], s, ctx)
+            lines = self.emit_binds(ctx) + L("let %s ← Py.setItem %s %s %s" % (lname(d), lname(d), atom(idx), atom(v)))
+            return lines + cont(env.assign(d, env.vars[d]))
+        return super().assign_to(target, value, env, cont, s)
+
+    # -- functions ---------------------------------------------------------------------------------
+    def translate_function(self, target):
+        import copy as _copy
+        fn = _copy.deepcopy(self.src.find_function(target.file, target.qualname))
+        if target.rewrite is not None:
+            fn = ast.fix_missing_locations(target.rewrite().visit(fn))
+        fn = ast.fix_missing_locations(Desugar2().visit(fn))
+        target.defaults = list(fn.args.defaults)
+        self.cur = target
+        if target.region is not None:
+            first_pred, last_pred, inputs, outputs = target.region
+            idx = [i for i, st in enumerate(fn.body) if first_pred(st)]
+            if len(idx) != 1:
+                raise Untranslatable("start of the translated region not found (or ambiguous)", target.qualname, fn)
+            jdx = [j for j, st in enumerate(fn.body) if j >= idx[0] and last_pred(st)]
+            if not jdx:
+                raise Untranslatable("end of the translated region not found", target.qualname, fn)
+            region = fn.body[idx[0]:jdx[0] + 1]
+            if outputs:
+                ret = ast.Return(value=ast.Tuple(elts=[ast.Name(id=n, ctx=ast.Load()) for n, _ in outputs], ctx=ast.Load())
+                                 if len(outputs) != 1 else ast.Name(id=outputs[0][0], ctx=ast.Load()))
+            else:
+                ret = ast.Return(value=None)        # the region only updates `self`
+            ast.copy_location(ret, region[-1])
+            ast.fix_missing_locations(ret)
+            fn.body = region + [ret]
+            keep_self = any(isinstance(n, ast.Name) and n.id == "self" for st in region for n in ast.walk(st))
+            fn.args.args = ([ast.arg(arg="self")] if keep_self and target.cls else []) + [ast.arg(arg=n) for n, _ in inputs]
+            fn.args.defaults = []
+            target.defaults = []
+            target.params = [t for _, t in inputs]
+            target.ret = (Tup(*[t for _, t in outputs]) if len(outputs) != 1 else outputs[0][1]) if outputs else None
+        a = fn.args
+        if a.vararg or a.kwarg or a.kwonlyargs or a.posonlyargs:
+            raise Untranslatable("*args / **kwargs / keyword-only parameters", target.qualname, fn)
+        if target.is_init:
+            fields = [f for f, _ in self.structs[target.cls]]
+            stored = []
+            for n in ast.walk(fn):
+                if isinstance(n, ast.Attribute) and isinstance(n.value, ast.Name) and n.value.id == "self" \
+                        and isinstance(n.ctx, ast.Store) and n.attr not in stored:
+                    stored.append(n.attr)
+            if getattr(target, "init_partial", False) and set(fields) <= set(stored):
+                # only the attributes of the signature table are kept: the other `self.x = e` statements are dropped
+                class DropOthers(ast.NodeTransformer):
+                    def visit_Assign(self, node):
+                        t = node.targets[0] if len(node.targets) == 1 else None
+                        if isinstance(t, ast.Attribute) and isinstance(t.value, ast.Name) and t.value.id == "self" \
+                                and t.attr not in fields:
+                            return ast.copy_location(ast.Pass(), node)
+                        return node
+                fn = ast.fix_missing_locations(DropOthers().visit(fn))
+            elif sorted(stored) != sorted(fields):
+                raise Untranslatable("`__init__` assigns the attributes %s, the signature table of %s has %s"
+                                     % (sorted(stored), target.cls, sorted(fields)), target.qualname, fn)
+
+            class InitSelf(ast.NodeTransformer):
+                def visit_Attribute(self, node):
+                    if isinstance(node.value, ast.Name) and node.value.id == "self":
+                        return ast.copy_location(ast.Name(id="self_" + node.attr, ctx=node.ctx), node)
+                    return self.generic_visit(node)
+            fn = InitSelf().visit(fn)
+            if any(isinstance(n, ast.Name) and n.id == "self" for st in fn.body for n in ast.walk(st)):
+                raise Untranslatable("`self` is used other than through its attributes in `__init__`", target.qualname, fn)
+            mk = ast.Return(value=ast.Call(func=ast.Name(id="__mk__", ctx=ast.Load()),
+                                           args=[ast.Name(id="self_" + f, ctx=ast.Load()) for f in fields], keywords=[]))
+            ast.copy_location(mk, fn.body[-1])
+            fn.body.append(mk)
+            ast.fix_missing_locations(fn)
+            fn.args.args = fn.args.args[1:]
+            fn.args.defaults = []
+            target.ret = Struct(target.cls)
+        pnames = [x.arg for x in a.args] if not target.is_init else [x.arg for x in fn.args.args]
+        is_method = bool(target.cls) and bool(pnames) and pnames[0] == "self" and not target.is_init
+        if is_method:
+            pnames = pnames[1:]
+        target.static = bool(target.cls) and not is_method
+        if len(pnames) != len(target.params):
+            raise Untranslatable("the function has %d parameters, the signature table %d" % (len(pnames), len(target.params)),
+                                 target.qualname, fn)
+        if "fuel" in pnames:
+            raise Untranslatable("a parameter is called `fuel`", target.qualname, fn)
+        target.param_names = pnames
+        is_gen = any(isinstance(n, (ast.Yield, ast.YieldFrom)) for n in ast.walk(fn))
+        if is_gen and not getattr(target, "generator", False):
+            raise Untranslatable("the function is a generator but is not declared as one", target.qualname, fn)
+        if target.close_log:
+            # `h.close()` -> `yield __closed__(h)`: the closed handle is appended to the log the definition returns
+            class CloseToYield(ast.NodeTransformer):
+                def visit_Expr(self, node):
+                    v = node.value
+                    if isinstance(v, ast.Call) and isinstance(v.func, ast.Attribute) and v.func.attr == "close" \
+                            and not v.args and not v.keywords:
+                        call = ast.Call(func=ast.Name(id="__closed__", ctx=ast.Load()), args=[v.func.value], keywords=[])
+                        return ast.copy_location(ast.Expr(value=ast.Yield(value=call)), node)
+                    return node
+            fn = ast.fix_missing_locations(CloseToYield().visit(fn))
+            is_gen = True
+        self.fn_self_struct = target.cls if is_method else None
+        eff, mut, hints = False, False, {}
+        if target.rec_fuel:
+            eff = True
+            target.effect, target.mutates = True, False
+        prev_abs = None
+        for attempt in range(8):
+            self.eff, self.mutates_flag, self.mutates, self.hints = eff, mut, False, hints
+            self.counter = 0
+            self.used_abstract = set()
+            self.pending_hints = []
+            self.loop_exit, self.loop_bodies, self.loop_depth = [], [], 0
+            self.loop_kinds, self.stop_handlers, self.live_stack = [], [], []
+            self.always_live = set()
+            self.classes = set()
+            self.inherited = []
+            self.uses_fuel = False
+            self.aux_before[target.qualname] = []
+            env = Env()
+            if is_method:
+                env.vars["self"] = Struct(target.cls)
+            for n, ty in zip(pnames, target.params):
+                env.vars[n] = ty
+            if is_gen:
+                env.vars[YIELD] = Lst(target.ret_yield)
+                self.always_live.add(YIELD)
+            self.fn_env_vars = dict(env.vars)
+            try:
+                body = self.block(list(fn.body), env, lambda e: L(self.pure_wrap(self.ret_value(None, fn))), ())
+            except NeedEffect:
+                if eff:
+                    raise Untranslatable("internal: effect mode did not settle", target.qualname, fn)
+                eff = True
+                continue
+            new_hints = {pos: resolve(ty) for pos, ty in self.pending_hints}
+            if self.mutates and not mut:
+                mut = True
+                continue
+            own = []
+            for key, v in target.abstract.items():
+                if v[0] in self.used_abstract and v[0] not in [x for x, _ in own]:
+                    own.append((v[0], v[1]))
+            abs_params = own + [p for p in self.inherited if p[0] not in [x for x, _ in own]]
+            target.classes = set(self.classes)
+            if target.rec_fuel and [x for x, _ in abs_params] != [x for x, _ in target.abs_params]:
+                target.abs_params = abs_params
+                continue
+            target.abs_params = abs_params
+            if new_hints != hints and attempt < 6:
+                hints = new_hints
+                continue
+            break
+        target.effect, target.mutates = eff, mut
+        target.needs_fuel = target.rec_fuel or self.uses_fuel
+        base = target.ret if target.ret is not None else UNIT
+        if is_gen:
+            base = Lst(target.ret_yield)
+        if mut:
+            base = Struct(target.cls) if (target.ret is None and not is_gen) else Tup(base, Struct(target.cls))
+        rts = lean_type(base)
+        if eff:
+            rts = "Except Py.Exc " + lean_type(base, False)
+        sig_types = list(target.params) + [base] + [ty for _, ty in target.abs_params] + \
+            ([Struct(target.cls)] if is_method else [])
+        params = self.binders(sig_types, target.classes)
+        if target.needs_fuel:
+            params.append("(fuel : Nat)")
+        for lean, ty in target.abs_params:
+            params.append("(%s : %s)" % (lean, lean_type(ty)))
+        if is_method:
+            params.append("(self : %s)" % lean_type(Struct(target.cls)))
+        for n, ty in zip(pnames, target.params):
+            params.append("(%s : %s)" % (lname(n), lean_type(ty)))
+        if is_gen:
+            body = L("let out : %s := []" % lean_type(Lst(target.ret_yield))) + body
+        if target.rec_fuel:
+            head = "def %s %s : %s :=" % (target.lean_name, " ".join(params), rts)
+            body = L("match fuel with") + L('| 0 => throw "RecursionError"') + L("| fuel + 1 => do") + ind(body)
+        else:
+            head = "def %s %s : %s :=%s" % (target.lean_name, " ".join(params), rts, " do" if eff else "")
+        text = ["/-- `%s` (%s) -/" % (target.qualname, target.file), head]
+        for (i, t) in ind(body):
+            text.append(" " * i + str(t))
+        self.done[target.qualname] = "\n".join(text)
+        return self.done[target.qualname]
+
+
+def _loop_escape(stmts):
+    """a `break` / `continue` that belongs to an enclosing loop"""
+    for s in stmts:
+        if isinstance(s, (ast.Break, ast.Continue)):
+            return True
+        if isinstance(s, ast.If) and (_loop_escape(s.body) or _loop_escape(s.orelse)):
+            return True
+        if isinstance(s, ast.With) and _loop_escape(s.body):
+            return True
+        if isinstance(s, ast.Try) and (_loop_escape(s.body) or any(_loop_escape(h.body) for h in s.handlers)):
+            return True
+    return False
+
+
+# ---- comprehension filter `x is not None` on the loop variable: the elements are narrowed --------------------------
+def _comp_filtered2(self, node, env, ctx):
+    g = node.generators[0] if len(node.generators) == 1 else None
+    if g is not None and len(g.ifs) == 1 and isinstance(g.target, ast.Name):
+        nt = self.none_test(g.ifs[0])
+        if nt is not None and not nt[1] and isinstance(nt[0], ast.Name) and nt[0].id == g.target.id:
+            it_code, elt_ty = self.iterable(g.iter, env, ctx)
+            et = resolve(elt_ty)
+            if _kind(et) == "opt":
+                pat, env2 = self.pattern(g.target, et[1], env, node)
+                return "List.filterMap (fun %s => %s) %s" % (pat, pat, atom(it_code)), et[1], pat, env2
+    return Translator.comp_filtered(self, node, env, ctx)
+
+
+Translator2.comp_filtered = _comp_filtered2
+
+
+# ------------------------------------------------------------------------------------------------
+# TRUSTED TABLES of part 2
+# ------------------------------------------------------------------------------------------------
+
+SC = "nptdms/scaling.py"
+TC = "nptdms/thermocouples.py"
+PROPS = Dct(Lst(CHAR), DYN)
+DT = Abstract("DT")
+
+# attribute TYPES of the Python objects (the attribute NAMES of a class with a translated `__init__` are checked
+# against the assignments `self.x = …` of that `__init__`)
+STRUCTS2 = {
+    "NoOpScaling": [("input_source", DYN)],
+    "LinearScaling": [("intercept", DYN), ("slope", DYN), ("input_source", DYN)],
+    "PolynomialScaling": [("coefficients", Lst(DYN)), ("input_source", DYN)],
+    "RtdScaling": [("current_excitation", DYN), ("r0_nominal_resistance", DYN), ("a", DYN), ("b", DYN), ("c", DYN),
+                   ("lead_wire_resistance", DYN), ("resistance_configuration", DYN), ("input_source", DYN)],
+    "StrainScaling": [("configuration", DYN), ("poisson_ratio", DYN), ("gage_resistance", DYN),
+                      ("lead_wire_resistance", DYN), ("initial_bridge_voltage", DYN), ("gage_factor", DYN),
+                      ("gain_adjustment", DYN), ("voltage_excitation", DYN), ("input_source", DYN)],
+    "TableScaling": [("input_values", Lst(DYN)), ("output_values", Lst(DYN)), ("input_source", DYN)],
+    "ThermistorScaling": [("excitation_type", DYN), ("excitation_value", DYN), ("resistance_configuration", DYN),
+                          ("r1_reference_resistance", DYN), ("lead_wire_resistance", DYN), ("a", DYN), ("b", DYN),
+                          ("c", DYN), ("temperature_offset", DYN), ("input_source", DYN)],
+    # `thermocouple` is one of the module level objects `thermocouples.type_b` …: identified with its name
+    "ThermocoupleScaling": [("thermocouple", Lst(CHAR)), ("scaling_direction", DYN), ("input_source", DYN)],
+    "AddScaling": [("left_input_source", DYN), ("right_input_source", DYN)],
+    "SubtractScaling": [("left_input_source", DYN), ("right_input_source", DYN)],
+    "DaqMxScalerScaling": [("scale_id", INT)],
+    "MultiScaling": [("scalings", Lst(Opt(Union("Scaling"))))],
+    # RawChannelDataChunk restricted to ONE element of its arrays (numpy arithmetic is elementwise)
+    "RawChannelDataChunk": [("data", Opt(NUM)), ("scaler_data", Opt(Dct(INT, NUM)))],
+    # a TdmsType class: only `.nptype` (a numpy dtype, opaque) is read
+    "TdmsType": [("nptype", DT)],
+    # thermocouples.py
+    "Range": [("start", Opt(NUM)), ("end", Opt(NUM))],
+    "Polynomial": [("applicable_range", Struct("Range")), ("_coefficients", Lst(NUM))],
+}
+WRF = "nptdms/writer.py"
+TV = Abstract("TV")        # an INSTANCE of a TdmsType class: a typed value to be written
+ITEM = Abstract("Item")    # one element of the data of a channel object (str / bytes / number)
+WPROPS = Abstract("Props")
+STRUCTS2.update({
+    # common.ObjectPath
+    "ObjectPath": [("group", Opt(Lst(CHAR))), ("channel", Opt(Lst(CHAR)))],
+    # writer.RootObject / GroupObject / ChannelObject.  `ChannelObject.data_type` is a @property computed from the
+    # data (numpy dtype lookup); here it is a field, and a TdmsType CLASS is identified with its `enum_value`.
+    # The inherited `TdmsObject.data_type` (None) of root / group objects is not modelled (the translated code only
+    # reads it behind `hasattr(obj, 'data')`).
+    "RootObject": [("properties", Opt(WPROPS))],
+    "GroupObject": [("group", Opt(Lst(CHAR))), ("properties", Opt(WPROPS))],
+    "ChannelObject": [("group", Lst(CHAR)), ("channel", Lst(CHAR)), ("data", Lst(ITEM)), ("data_type", INT),
+                      ("properties", Opt(WPROPS))],
+    # writer.TdmsSegment
+    "TdmsSegment": [("objects", Lst(Union("WObject"))), ("_tdms_version", INT), ("is_index_file", BOOL)],
+})
+# `_to_tdms_value`: a property value of one of these RUNTIME classes (`payload`: the value itself, opaque)
+PAYLOAD = Abstract("Payload")
+_PV_CLASSES = ["NpFloat64", "NpNumber", "TdmsTypeValue", "PyBool", "NpBool", "PyInt", "PyFloat", "PyDatetime",
+               "NpDatetime64", "TdmsTimestampValue", "PyStr", "PyBytes", "OtherValue"]
+STRUCTS2.update({c: [("payload", PAYLOAD)] for c in _PV_CLASSES})
+# TRUSTED: which runtime classes are instances of the classes tested by `isinstance` (Python / numpy class hierarchy):
+# `bool` is a subclass of `int`; `np.float64` is a subclass of `float` AND of `np.number`; numpy integers are not `int`
+ISINSTANCE2 = {
+    ("PyValue", "np.number"): ["NpFloat64", "NpNumber"],
+    ("PyValue", "TdmsType"): ["TdmsTypeValue"],
+    ("PyValue", "bool"): ["PyBool"],
+    ("PyValue", "np.bool_"): ["NpBool"],
+    ("PyValue", "int"): ["PyBool", "PyInt"],
+    ("PyValue", "float"): ["NpFloat64", "PyFloat"],
+    ("PyValue", "datetime"): ["PyDatetime"],
+    ("PyValue", "np.datetime64"): ["NpDatetime64"],
+    ("PyValue", "TdmsTimestamp"): ["TdmsTimestampValue"],
+    ("PyValue", "str"): ["PyStr"],
+    ("PyValue", "bytes"): ["PyBytes"],
+}
+HANDLE = Abstract("Handle")     # an open file object
+_PATHSTR = Opt(Lst(CHAR))
+STRUCTS2.update({
+    # reader.TdmsReader / writer.TdmsWriter restricted to the attributes that decide which files are closed
+    "TdmsReader": [("_file", Opt(HANDLE)), ("_index_file", Opt(HANDLE)), ("_file_path", _PATHSTR),
+                   ("_index_file_path", _PATHSTR)],
+    # `_groups_written` is a set of group names (an element is the `.group` of an ObjectPath: None-able),
+    # `_channel_types` maps a channel path to its TdmsType class (= enum value)
+    "TdmsWriter": [("_file", Opt(HANDLE)), ("_index_file", Opt(HANDLE)), ("_file_path", _PATHSTR),
+                   ("_index_file_path", _PATHSTR), ("_file_mode", Lst(CHAR)), ("_tdms_version", INT),
+                   ("_root_written", BOOL), ("_groups_written", Lst(Opt(Lst(CHAR)))),
+                   ("_channel_types", Dct(Lst(CHAR), INT))],
+})
+UNIONS2 = {
+    "PyValue": _PV_CLASSES,
+    "WObject": ["RootObject", "GroupObject", "ChannelObject"],
+    "Scaling": ["NoOpScaling", "LinearScaling", "PolynomialScaling", "RtdScaling", "StrainScaling", "TableScaling",
+                "ThermistorScaling", "ThermocoupleScaling", "AddScaling", "SubtractScaling", "DaqMxScalerScaling"],
+}
+TYPE_ORDER2 = ["NoOpScaling", "LinearScaling", "PolynomialScaling", "RtdScaling", "StrainScaling", "TableScaling",
+               "ThermistorScaling", "ThermocoupleScaling", "AddScaling", "SubtractScaling", "DaqMxScalerScaling",
+               "Scaling", "MultiScaling", "RawChannelDataChunk", "TdmsType", "Range", "Polynomial",
+               "ObjectPath", "RootObject", "GroupObject", "ChannelObject", "WObject", "TdmsSegment", "TdmsReader",
+               "TdmsWriter"] + _PV_CLASSES + ["PyValue"]
+
+
+class DiffPositive(ast.NodeTransformer):
+    """`np.all(np.diff(x) > 0)` is a predicate of `x`: the parameter `strictly_increasing`"""
+
+    def visit_Call(self, node):
+        self.generic_visit(node)
+        if ast.unparse(node.func) == "np.all" and len(node.args) == 1 and isinstance(node.args[0], ast.Compare) \
+                and len(node.args[0].ops) == 1 and isinstance(node.args[0].ops[0], ast.Gt) \
+                and ast.unparse(node.args[0].comparators[0]) == "0" and isinstance(node.args[0].left, ast.Call) \
+                and ast.unparse(node.args[0].left.func) == "np.diff" and len(node.args[0].left.args) == 1:
+            return ast.copy_location(ast.Call(func=ast.Name(id="_strictly_increasing", ctx=ast.Load()),
+                                              args=[node.args[0].left.args[0]], keywords=[]), node)
+        return node
+
+
+class RegexIndex(ast.NodeTransformer):
+    """`_scale_regex.match(key)` followed by `int(m.group(1))` on the matches: the parameter `scale_regex_index`
+    (`key` -> the integer in the first group of the match, None when the key does not match); the regular expression
+    itself is NOT translated"""
+
+    def visit_Call(self, node):
+        self.generic_visit(node)
+        if ast.unparse(node.func) == "_scale_regex.match" and len(node.args) == 1 and not node.keywords:
+            return ast.copy_location(ast.Call(func=ast.Name(id="_scale_regex_index", ctx=ast.Load()), args=node.args,
+                                              keywords=[]), node)
+        if isinstance(node.func, ast.Name) and node.func.id == "int" and len(node.args) == 1 \
+                and isinstance(node.args[0], ast.Call) and isinstance(node.args[0].func, ast.Attribute) \
+                and node.args[0].func.attr == "group" and ast.unparse(node.args[0].args[0]) == "1" \
+                and isinstance(node.args[0].func.value, ast.Name):
+            return node.args[0].func.value
+        return node
+
+
+def _sensor_scale(cls, lean):
+    return {(cls, "scale"): (lean, Fn([Struct(cls), NUM], NUM, True), ["recv", 0])}
+
+
+_SCALE_ABSTRACT = {}
+_SCALE_ABSTRACT.update(_sensor_scale("RtdScaling", "rtd_scale"))
+_SCALE_ABSTRACT.update(_sensor_scale("StrainScaling", "strain_scale"))
+_SCALE_ABSTRACT.update(_sensor_scale("ThermistorScaling", "thermistor_scale"))
+_SCALE_ABSTRACT.update(_sensor_scale("ThermocoupleScaling", "thermocouple_scale"))
+_DTYPE_ABSTRACT = {"np.result_type": ("result_type", Fn([DT, DT], DT), [0, 1]),
+                   "np.dtype": ("dtype", Fn([Lst(CHAR)], DT), [0])}
+_SCALING = Lst(Opt(Union("Scaling")))
+_RAW = Struct("RawChannelDataChunk")
+
+
+def _init(cls, params, **kw):
+    return Target2(SC, cls + ".__init__", params, **kw)
+
+
+def _is_div_assign(name):
+    return lambda st: _assigns(name)(st) and isinstance(st.value, ast.BinOp) and isinstance(st.value.op, ast.Div)
+
+
+def _is_call_assign(name, fname):
+    return lambda st: _assigns(name)(st) and isinstance(st.value, ast.Call) and ast.unparse(st.value.func) == fname
+
+
+def _is_if_on(text):
+    return lambda st: isinstance(st, ast.If) and ast.unparse(st.test) == text
+
+
+class FromStringPath(ast.NodeTransformer):
+    """`ObjectPath.from_string(o.path)` (the path string of an object, parsed back): the parameter `object_path`
+    (the round trip through the path string is C16)"""
+
+    def visit_Call(self, node):
+        self.generic_visit(node)
+        if ast.unparse(node.func) == "ObjectPath.from_string" and len(node.args) == 1 and not node.keywords \
+                and isinstance(node.args[0], ast.Attribute) and node.args[0].attr == "path":
+            return ast.copy_location(ast.Call(func=ast.Name(id="_object_path", ctx=ast.Load()),
+                                              args=[node.args[0].value], keywords=[]), node)
+        return node
+
+
+_GROUPS = Lst(Opt(Lst(CHAR)))
+# `GroupObject.path` / `ChannelObject.path` (`str(ObjectPath(...))`) are not translated
+_PATH_ABSTRACT = {
+    ("GroupObject", "path"): ("group_path", Fn([Struct("GroupObject")], Lst(CHAR)), ["recv"]),
+    ("ChannelObject", "path"): ("channel_path", Fn([Struct("ChannelObject")], Lst(CHAR)), ["recv"]),
+}
+_WS_ABSTRACT = dict(_PATH_ABSTRACT)
+_WS_ABSTRACT.update({
+    "_object_path": ("object_path", Fn([Union("WObject")], Struct("ObjectPath")), [0]),
+    "sorted": ("sorted_names", Fn([_GROUPS], _GROUPS), [0]),
+})
+
+
+class ToTdmsValueRewrite(ast.NodeTransformer):
+    """`_to_tdms_value`: `numpy_data_types[value.dtype](value)` -> `_np_typed(value)`; `return value` (already a TdmsType
+    / TdmsTimestamp) -> `return _as_tdms(value)`; `to_int_property_value(value)` -> `to_int_property_value(_as_int(value))`
+    (`value` is of one of the runtime classes of the union PyValue; its content is opaque)"""
+
+    def visit_Call(self, node):
+        self.generic_visit(node)
+        if isinstance(node.func, ast.Subscript) and ast.unparse(node.func) == "numpy_data_types[value.dtype]" \
+                and len(node.args) == 1:
+            return ast.copy_location(ast.Call(func=ast.Name(id="_np_typed", ctx=ast.Load()), args=node.args, keywords=[]), node)
+        if ast.unparse(node.func) == "to_int_property_value" and len(node.args) == 1 and ast.unparse(node.args[0]) == "value":
+            inner = ast.Call(func=ast.Name(id="_as_int", ctx=ast.Load()), args=node.args, keywords=[])
+            return ast.copy_location(ast.Call(func=node.func, args=[inner], keywords=[]), node)
+        return node
+
+    def visit_Return(self, node):
+        self.generic_visit(node)
+        if isinstance(node.value, ast.Name) and node.value.id == "value":
+            return ast.copy_location(ast.Return(value=ast.Call(func=ast.Name(id="_as_tdms", ctx=ast.Load()),
+                                                               args=[node.value], keywords=[])), node)
+        return node
+
+
+class ReaderInitRewrite(ast.NodeTransformer):
+    """`TdmsReader.__init__`: the argument is a file object or a path; what is done with it is abstracted:
+    `hasattr(tdms_file, "read")` -> `_is_stream(tdms_file)`, `tdms_file.read(4)` -> `_read_tag(tdms_file)`,
+    `tdms_file.seek(0, os.SEEK_SET)` dropped (the position of a stream is not modelled), `str(tdms_file)` ->
+    `_path_str(tdms_file)`"""
+
+    def visit_Call(self, node):
+        self.generic_visit(node)
+        f = ast.unparse(node.func)
+        if f == "hasattr" and len(node.args) == 2 and ast.unparse(node.args[0]) == "tdms_file" \
+                and ast.unparse(node.args[1]) in ("'read'", '"read"'):
+            return ast.copy_location(ast.Call(func=ast.Name(id="_is_stream", ctx=ast.Load()), args=[node.args[0]], keywords=[]), node)
+        if f == "tdms_file.read" and len(node.args) == 1 and ast.unparse(node.args[0]) == "4":
+            return ast.copy_location(ast.Call(func=ast.Name(id="_read_tag", ctx=ast.Load()),
+                                              args=[ast.Name(id="tdms_file", ctx=ast.Load())], keywords=[]), node)
+        if f == "str" and len(node.args) == 1 and ast.unparse(node.args[0]) == "tdms_file":
+            return ast.copy_location(ast.Call(func=ast.Name(id="_path_str", ctx=ast.Load()), args=node.args, keywords=[]), node)
+        return node
+
+    def visit_Expr(self, node):
+        if ast.unparse(node.value) == "tdms_file.seek(0, os.SEEK_SET)":
+            return ast.copy_location(ast.Pass(), node)
+        return self.generic_visit(node)
+
+
+def _init_partial(t):
+    t.init_partial = True
+    return t
+
+
+def _closing(t):
+    """the method closes file handles: every `h.close()` is recorded, the definition returns (closed handles, self)"""
+    t.close_log = True
+    t.generator = True
+    t.ret_yield = HANDLE
+    return t
+
+
+_W_ABSTRACT = {
+    "Uint32": ("mk_Uint32", Fn([INT], TV), [0]), "Uint64": ("mk_Uint64", Fn([INT], TV), [0]),
+    "Int32": ("mk_Int32", Fn([INT], TV), [0]), "Bytes": ("mk_Bytes", Fn([Lst(INT)], TV), [0]),
+    ("type", "size"): ("type_size", Fn([INT], INT), ["recv"]),
+    ("Item", "encode"): ("encode", Fn([ITEM, Lst(CHAR)], ITEM, True), ["recv", 0]),
+    ("len", "Item"): ("item_len", Fn([ITEM], INT), ["recv"]),
+}
+
+TARGETS2 = [
+    # ---- C13 / C14: constructors, `from_properties`, elementwise `scale`
+    _init("NoOpScaling", [DYN]),
+    Target2(SC, "NoOpScaling.from_properties", [PROPS, INT, Lst(CHAR)], Struct("NoOpScaling")),
+    Target2(SC, "NoOpScaling.scale", [NUM], NUM),
+    _init("LinearScaling", [DYN, DYN, DYN]),
+    Target2(SC, "LinearScaling.from_properties", [PROPS, INT], Struct("LinearScaling")),
+    Target2(SC, "LinearScaling.scale", [NUM], NUM),
+    _init("PolynomialScaling", [Lst(DYN), DYN]),
+    Target2(SC, "PolynomialScaling.from_properties", [PROPS, INT], Struct("PolynomialScaling")),
+    Target2(SC, "PolynomialScaling.scale", [NUM], NUM,
+            abstract={"np.polynomial.polynomial.polyval": ("polyval", Fn([NUM, Lst(DYN)], NUM, True), [0, 1])}),
+    _init("TableScaling", [Lst(DYN), Lst(DYN), DYN], rewrite=DiffPositive,
+          abstract={"_strictly_increasing": ("strictly_increasing", Fn([Lst(DYN)], BOOL), [0]),
+                    "np.flip": ("flip", Fn([Lst(DYN)], Lst(DYN)), [0])}),
+    Target2(SC, "TableScaling.from_properties", [PROPS, INT], Struct("TableScaling")),
+    Target2(SC, "TableScaling.scale", [NUM], NUM,
+            abstract={"np.interp": ("interp", Fn([NUM, Lst(DYN), Lst(DYN)], NUM, True), [0, 1, 2])}),
+    _init("AddScaling", [DYN, DYN]),
+    Target2(SC, "AddScaling.from_properties", [PROPS, INT], Struct("AddScaling")),
+    Target2(SC, "AddScaling.scale", [NUM, NUM], NUM),
+    _init("SubtractScaling", [DYN, DYN]),
+    Target2(SC, "SubtractScaling.from_properties", [PROPS, INT], Struct("SubtractScaling")),
+    Target2(SC, "SubtractScaling.scale", [NUM, NUM], NUM),
+    _init("DaqMxScalerScaling", [INT]),
+    Target2(SC, "DaqMxScalerScaling.scale_daqmx", [Dct(INT, NUM)], NUM),
+    _init("ThermocoupleScaling", [DYN, DYN, DYN]),
+    Target2(SC, "ThermocoupleScaling.from_properties", [PROPS, INT], Struct("ThermocoupleScaling")),
+    # ---- C17: sensor scalings
+    Target2(SC, "_adjust_for_lead_resistance", [NUM, DYN, DYN, DYN], NUM),
+    _init("RtdScaling", [DYN] * 8),
+    Target2(SC, "RtdScaling.from_properties", [PROPS, INT], Struct("RtdScaling")),
+    Target2(SC, "RtdScaling.scale", [], None, lean_name="RtdScaling.scale_resistance",
+            region=(_is_div_assign("r_t"), _is_call_assign("r_t", "_adjust_for_lead_resistance"),
+                    [("data", NUM)], [("r_t", NUM)])),
+    _init("StrainScaling", [DYN] * 9),
+    Target2(SC, "StrainScaling.from_properties", [PROPS, INT], Struct("StrainScaling")),
+    Target2(SC, "StrainScaling.scale", [NUM], NUM),
+    _init("ThermistorScaling", [DYN] * 10),
+    Target2(SC, "ThermistorScaling.from_properties", [PROPS, INT], Struct("ThermistorScaling")),
+    Target2(SC, "ThermistorScaling.scale", [], None, lean_name="ThermistorScaling.scale_resistance",
+            region=(_is_if_on("self.excitation_type == CURRENT_EXCITATION"),
+                    _is_call_assign("r_t", "_adjust_for_lead_resistance"), [("data", NUM)], [("r_t", NUM)])),
+    # ---- C13 / C14: the scale graph
+    _init("MultiScaling", [_SCALING]),
+    Target2(SC, "MultiScaling._compute_scaled_data", [DYN, _RAW], NUM, rec_fuel=True, abstract=_SCALE_ABSTRACT),
+    Target2(SC, "MultiScaling.scale", [_RAW], NUM),
+    Target2(SC, "MultiScaling._compute_scale_dtype", [DYN, Struct("TdmsType"), Dct(INT, Struct("TdmsType"))], DT,
+            rec_fuel=True, abstract=_DTYPE_ABSTRACT),
+    Target2(SC, "MultiScaling.get_dtype", [Struct("TdmsType"), Dct(INT, Struct("TdmsType"))], DT),
+    Target2(SC, "_get_number_of_scalings", [PROPS], Opt(INT), rewrite=RegexIndex,
+            abstract={"_scale_regex_index": ("scale_regex_index", Fn([Lst(CHAR)], Opt(INT)), [0])}),
+    Target2(SC, "_get_channel_scaling", [PROPS], Opt(Struct("MultiScaling")), locals={"scalings": _SCALING}),
+    Target2(SC, "get_scaling", [PROPS, PROPS, PROPS], Opt(Struct("MultiScaling"))),
+    # ---- C18: range of validity of a thermocouple polynomial
+    Target2(TC, "Range.__init__", [Opt(NUM), Opt(NUM)]),
+    Target2(TC, "Range.within_range", [NUM], BOOL),
+    Target2(TC, "Polynomial.__init__", [Struct("Range"), Lst(NUM)]),
+    Target2(TC, "Polynomial.within_range", [NUM], BOOL),
+    Target2(TC, "_verify_contiguous", [Lst(Struct("Polynomial"))], None),
+    # ---- C07 / C08: writer decisions
+    Target2(WRF, "to_int_property_value", [INT], TV,
+            abstract={"Uint64": ("mk_Uint64", Fn([INT], TV), [0]), "Int64": ("mk_Int64", Fn([INT], TV), [0]),
+                      "Int32": ("mk_Int32", Fn([INT], TV), [0])}),
+    Target2(WRF, "_infer_dtype", [Lst(INT)], Opt(DT), abstract={"np.dtype": ("dtype", Fn([Lst(CHAR)], DT), [0])}),
+    Target2(WRF, "_to_tdms_value", [Union("PyValue")], TV, rewrite=ToTdmsValueRewrite,
+            abstract={"_np_typed": ("np_typed", Fn([Union("PyValue")], TV), [0]),
+                      "_as_tdms": ("as_tdms", Fn([Union("PyValue")], TV), [0]),
+                      "_as_int": ("as_int", Fn([Union("PyValue")], INT), [0]),
+                      "Boolean": ("mk_Boolean", Fn([Union("PyValue")], TV), [0]),
+                      "DoubleFloat": ("mk_DoubleFloat", Fn([Union("PyValue")], TV), [0]),
+                      "TimeStamp": ("mk_TimeStamp", Fn([Union("PyValue")], TV), [0]),
+                      "String": ("mk_String", Fn([Union("PyValue")], TV), [0])}),
+    Target2("nptdms/common.py", "ObjectPath.is_root", [], BOOL, is_property=True),
+    Target2("nptdms/common.py", "ObjectPath.is_group", [], BOOL, is_property=True),
+    Target2("nptdms/common.py", "ObjectPath.is_channel", [], BOOL, is_property=True),
+    Target2(WRF, "_path_ordering_key", [Struct("ObjectPath")], Opt(INT)),
+    Target2(WRF, "object_data_size", [INT, Lst(ITEM)], INT, types_as_enum=True, abstract=_W_ABSTRACT),
+    Target2(WRF, "TdmsSegment.raw_data_index", [Union("WObject")], Lst(TV), types_as_enum=True, abstract=_W_ABSTRACT),
+    Target2(WRF, "TdmsSegment._data_size", [], INT, types_as_enum=True, abstract=_W_ABSTRACT),
+    Target2(WRF, "TdmsSegment.leadin", [Lst(Lst(CHAR)), INT], Lst(TV), types_as_enum=True, abstract=_W_ABSTRACT),
+    # ---- C08: `TdmsWriter.write_segment` in three regions (the file writes between them are not translated)
+    Target2(WRF, "RootObject.__init__", [Opt(WPROPS)]),
+    Target2(WRF, "GroupObject.__init__", [Opt(Lst(CHAR)), Opt(WPROPS)]),
+    Target2(WRF, "RootObject.path", [], Lst(CHAR), is_property=True),
+    Target2(WRF, "TdmsSegment.__init__", [Lst(Union("WObject")), BOOL, INT], abstract=_PATH_ABSTRACT),
+    Target2(WRF, "TdmsWriter.write_segment", [], None, lean_name="TdmsWriter.write_segment_objects",
+            rewrite=FromStringPath, abstract=_WS_ABSTRACT,
+            region=(lambda st: _assigns("path_object_pairs")(st) and isinstance(st.value, ast.ListComp),
+                    _assigns("objects"), [("objects", Lst(Union("WObject")))],
+                    [("objects", Lst(Union("WObject"))), ("groups_included", Lst(Opt(Lst(CHAR)))),
+                     ("groups_to_add", Lst(Opt(Lst(CHAR))))])),
+    Target2(WRF, "TdmsWriter.write_segment", [], None, lean_name="TdmsWriter.write_segment_types",
+            types_as_enum=True, abstract=_WS_ABSTRACT,
+            region=(_assigns("channel_types"),
+                    lambda st: isinstance(st, ast.For) and "channel_types.items()" in ast.unparse(st.iter),
+                    [("objects", Lst(Union("WObject")))], [("channel_types", Dct(Lst(CHAR), INT))])),
+    Target2(WRF, "TdmsWriter.write_segment", [], None, lean_name="TdmsWriter.write_segment_state",
+            region=(lambda st: ast.unparse(st) == "self._root_written = True",
+                    lambda st: isinstance(st, ast.Assign) and ast.unparse(st.targets[0]) == "self._channel_types",
+                    [("groups_included", Lst(Opt(Lst(CHAR)))), ("groups_to_add", Lst(Opt(Lst(CHAR)))),
+                     ("channel_types", Dct(Lst(CHAR), INT))], [])),
+    # ---- C20: which file handles are opened and closed
+    _init_partial(Target2("nptdms/reader.py", "TdmsReader.__init__", [HANDLE], rewrite=ReaderInitRewrite,
+                          abstract={"_is_stream": ("is_stream", Fn([HANDLE], BOOL), [0]),
+                                    "_read_tag": ("read_tag", Fn([HANDLE], Lst(INT)), [0]),
+                                    "_path_str": ("path_str", Fn([HANDLE], Lst(CHAR)), [0]),
+                                    "os.path.isfile": ("isfile", Fn([Lst(CHAR)], BOOL), [0]),
+                                    "open": ("open_file", Fn([Lst(CHAR), Lst(CHAR)], HANDLE), [0, 1])})),
+    _closing(Target2("nptdms/reader.py", "TdmsReader.close", [], None)),
+    Target2(WRF, "TdmsWriter.open", [], None,
+            abstract={"open": ("open_file", Fn([Lst(CHAR), Lst(CHAR)], HANDLE), [0, 1])}),
+    _closing(Target2(WRF, "TdmsWriter.close", [], None)),
+]
+
+
+def _struct_params2(structs, unions):
+    """type parameters of the generated structures / inductives: `R` when a field is a float or a dynamically typed
+    value, then the opaque types of its fields"""
+    params = {n: [] for n in list(structs) + list(unions)}
+    changed = True
+    while changed:
+        changed = False
+        for n in params:
+            ftypes = [t for _, t in structs[n]] if n in structs else [Struct(m) for m in unions[n]]
+            new = list(params[n])
+
+            def visit(t):
+                t = resolve(t)
+                if not isinstance(t, tuple):
+                    return
+                k = t[0]
+                if k in ("dyn", "num"):
+                    if "R" not in new:
+                        new.insert(0, "R")
+                elif k in ("struct", "union"):
+                    for p in params.get(t[1], []):
+                        if p not in new:
+                            if p == "R":
+                                new.insert(0, "R")
+                            else:
+                                new.append(p)
+                elif k == "abstract":
+                    if t[1] not in new:
+                        new.append(t[1])
+                elif k in ("opt", "list"):
+                    visit(t[1])
+                elif k == "tuple":
+                    for x in t[1]:
+                        visit(x)
+                elif k == "dict":
+                    visit(t[1])
+                    visit(t[2])
+            for t in ftypes:
+                visit(t)
+            if new != params[n]:
+                params[n] = new
+                changed = True
+    return params
+
+
+def generate2(repo_root=None, overrides=None, targets=None, strict=False):
+    """the full text of lean/Tdms/Generated/Code2.lean"""
+    with _GEN_LOCK:
+        return _generate2(repo_root, overrides, targets, strict)
+
+
+def _generate2(repo_root=None, overrides=None, targets=None, strict=False):
+    global STRUCT_PARAMS
+    src = Source(repo_root or REPO_DEFAULT, overrides)
+    import copy as _copy
+    tgts = [_copy.copy(t) for t in (targets or TARGETS2)]
+    sp = _struct_params2(STRUCTS2, UNIONS2)
+    saved = STRUCT_PARAMS
+    STRUCT_PARAMS = sp
+    try:
+        tr = Translator2(src, tgts, STRUCTS2, UNIONS2, sp)
+        defs = []
+        for t in tgts:
+            try:
+                text = tr.translate_function(t)
+                for a in tr.aux_before.get(t.qualname, []):
+                    defs.append(tr.aux[a])
+                defs.append(text)
+            except Untranslatable as ex:
+                if strict:
+                    raise
+                t.effect = None
+                name = getattr(t, "lean_name", None) or str(t)
+                defs.append("/- UNTRANSLATABLE %s (line %s): %s -/" % (name, ex.lineno, str(ex.reason).replace("-/", "- /")))
+        out = ["import Tdms.Generated.CodePrelude", "",
+               "/-! GENERATED by harness/pyast2lean.py (part 2) from the Python source of npTDMS — do not edit.",
+               "Each definition is the translation of one Python function (shallow embedding, see the module",
+               "docstring of the translator for the subset and `CodePrelude.lean` for the `Py.*` operations). -/",
+               "",
+               "set_option linter.unusedVariables false", "",
+               "namespace Tdms.Generated.Code2", "", "open Tdms.Generated", ""]
+        for name in TYPE_ORDER2:
+            ps = sp.get(name)
+            binder = (" (%s : Type)" % " ".join(ps)) if ps else ""
+            if name in STRUCTS2:
+                out.append("structure %s%s where" % (name, binder))
+                for f, ty in STRUCTS2[name]:
+                    out.append("  %s : %s" % (lname(f), lean_type(ty)))
+            else:
+                out.append("/-- an object of one of the classes %s -/" % ", ".join(UNIONS2[name]))
+                out.append("inductive %s%s where" % (name, binder))
+                for m in UNIONS2[name]:
+                    out.append("  | %s (o : %s)" % (m, lean_type(Struct(m))))
+            out.append("")
+        if tr.const_defs:
+            out.append("/-! module and class level constants, from their defining expressions -/")
+            for lean, (code, ty, origin) in tr.const_defs.items():
+                out.append("/-- %s -/" % origin)
+                out.append("def %s : %s := %s" % (lean if "." in lean else lname(lean), lean_type(ty), code))
+            out.append("")
+        for d in defs:
+            out.append(d)
+            out.append("")
+        out.append("end Tdms.Generated.Code2")
+        return "\n".join(out) + "\n"
+    finally:
+        STRUCT_PARAMS = saved
+
 
 
 if __name__ == "__main__":
